@@ -12,1265 +12,2745 @@ Definition show_fres (r : fres) : string :=
   end.
 Definition check (rs : list rune) : string := digest (show_fres (format_res rs)).
 Definition full (rs : list rune) : string := show_fres (format_res rs).
-Eval vm_compute in ("<<<M1443>>>" ++ check (runes_of_ascii "// top
-options // c0
-{ // c1
-LittleEndian
-    // c2
-= true // c4a
-  // c4b
-; // c5a
-  // c5b
-StringPrefixLenType =
-    // c7
-u64 // c8
-; // c9a
-  // c9b
-ArrayPrefixLenType // c10a
-  // c10b
-= u8 ;
-    // c13
-FixedStringPadChar // c14
-= // c15a
-  // c15b
-'0' // c16
-; // c17
-} packet Reject // c20a
-  // c20b
-{ // c21a
-  // c21b
-i32 // c22
-Ref ,
-    // c24
-repeat // c25
-f64 // c26a
-  // c26b
-OrderId ,
-    // c28
-repeat // c29a
-  // c29b
-InNote12 // c30a
-  // c30b
-{
-    // c31
-u8
-    // c32
-pad0 // c33a
-  // c33b
-,
-    // c34
-} , @leftPad // c37
-( // c38
-' ' // c39
-) // c40a
-  // c40b
-char[ // c41
-6 // c42
-] // c43
-count
-    // c44
-, // c45a
-  // c45b
-}
-    // c46
-packet Logout { // c49
-zchar[ // c50
-6 // c51a
-  // c51b
-]
-    // c52
-Tail // c53a
-  // c53b
-,
-    // c54
-repeat // c55
-string // c56a
-  // c56b
-venue // c57a
-  // c57b
-,
-    // c58
-} // c59a
-  // c59b
-packet // c60
-Cancel // c61a
-  // c61b
-{ // c62a
-  // c62b
-u64
-    // c63
-count // c64a
-  // c64b
-,
-    // c65
-repeat char[
-    // c67
-5
-    // c68
-] // c69a
-  // c69b
-lastPx // c70
-, // c71a
-  // c71b
-i64 Tail // c73
-,
-    // c74
-repeat
-    // c75
-InF140 { // c77a
-  // c77b
-repeat Logout // c79
-, // c80
-repeat Reject // c82
-, // c83a
-  // c83b
-} // c84a
-  // c84b
-, // c85
-}
-    // c86
-root
-    // c87
-packet
-    // c88
-Trade // c89
-{ repeat InMsgkind39 { // c93a
-  // c93b
-repeat // c94
-Reject // c95
-,
-    // c96
-char[ // c97
-4
-    // c98
-] // c99a
-  // c99b
-Px // c100
-, } // c102
-, // c103a
-  // c103b
-string // c104
-Acct
-    // c105
-, uint16 // c107a
-  // c107b
-price , // c109a
-  // c109b
-f32 // c110a
-  // c110b
-OrderId
-    // c111
-, // c112
-u16 x , u16 // c116a
-  // c116b
-clOrdID
-    // c117
-@lengthOf( // c118a
-  // c118b
-Body // c119a
-  // c119b
-) // c120a
-  // c120b
-,
-    // c121
-match // c122a
-  // c122b
-x // c123
-as Body // c125a
-  // c125b
-{ 178
-    // c127
-: // c128a
-  // c128b
-Logout
-    // c129
-,
-    // c130
-13 : // c132a
-  // c132b
-Cancel // c133a
-  // c133b
-, // c134a
-  // c134b
-174 // c135
-: // c136
-Reject , // c138a
-  // c138b
-} // c139a
-  // c139b
-, // c140
-u16 // c141
-Flags // c142a
-  // c142b
-@calculatedFrom(
-    // c143
-""CRC32"" ) // c145
-,
-    // c146
-} ")).
-Eval vm_compute in ("<<<M103>>>" ++ check (runes_of_ascii "packet
-trueish {
-@calculatedFrom(	"""" ) u
-    @lengthOf( a1
-) ,
-} options //	t
-{
-    trueish =
-42 }
-options { //	t
-}packet Foo {match matchKey
-as body	{
+Eval vm_compute in ("<<<M3804>>>" ++ check (runes_of_ascii "  packet
+	options1
+
+    { i8
+    leftPad
+
+// c
+	// " ++ [128512]%N ++ runes_of_ascii " emoji
+	`say ""hi""`
+	,@tag( 4294967296 )repeat
+zchar[  7] 
+Pad ,
+
+    @leftPad( '\x00' )
+
+As	`u8 x,`  ,  falsey @calculatedFrom(
+	""x y""
+) , 
+
     // `tick` ""quote"" 'q'
-    [4294967296 ]	: Packet , 00 : A ,
-    } , @calculatedFrom( ""x y"" ) // " ++ [27880; 37322]%N ++ runes_of_ascii "
-@lengthOf(	a1)
-    repeat f64	rootA , } packet len{ @calculatedFrom( ""// no comment"") string T @lengthOf(
-f32a )
-    , float32 chars
-    , @rightPad ( ' ' ) repeat chars{ string A , string
-i64_ `line1
-line2`
+    	//x
+    	pack `say ""hi""`
+
 ,
-float32
-    //
-    i8i8 ,uint64
-    /// triple
-    matchKey @calculatedFrom( ""abc"" )
-/// triple
-// `tick` ""quote"" 'q'
-`" ++ [233]%N ++ runes_of_ascii "` , } , A
-    `a\` ,
-@tag( 00
-)
-    @tag( 0123456789 )
-    @tag( 1	)
-u128 {i64_
-    {
-// c
-// trailing space 
-BodyLength , i64 u
-`{ , }` , match
-    Z9_
-    as
-chars /// triple
-{ ["""" ] : // `tick` ""quote"" 'q'
-float , [ 0123456789  , 42
-    , 3 ,
-    //	t
-    10  , 10 ]
-// a // b
-/// triple
-: stringy , ""1"" :trueish , // packet A { u8 x, }
-""packet"" : u128 [
-""x y"" ,7 ] : A
-} ,
-    int32	a1 ,} , rootA
-//x
-/// triple
-`doc` ,
-//x
-// `tick` ""quote"" 'q'
-} , @rightPad ( ' ' ) repeat options1  { int
-    @calculatedFrom( ""packet"" ) , // " ++ [128512]%N ++ runes_of_ascii " emoji
-} , repeat char[65535]
-    falsey
-    // packet A { u8 x, }
-    , @rightPad ( ) repeat char[] i8i8,
-repeat calculatedFrom  msg_type ,@rightPad (	) @tag(
-65535 ) repeat calculatedFrom crc , } 	 ")).
-Eval vm_compute in ("<<<M1617>>>" ++ check (runes_of_ascii "// top
-options {
-    // c1
-    StringPrefixLenType = u16;
-    // c5
-    ArrayPrefixLenType = u32;
-    FixedStringPadFromLeft = false;// c13a
-    // c13b
-    FixedStringPadChar = '0';// c17
-}
-
-// c18
-packet Logout {
-    // c21
-    f64 f1,// c24
-    i16 Note,// c27
-    @rightPad('\x00')
-    char[11] Flags,
-    // c36
-}// c37
-
-packet Cancel {
-    // c40
-    float64 msgKind,
-    // c43
-}// c44
-
-packet Reject {
-    // c47
-    InQty43 {
-        // c49
-        float32 sym,// c52
-        char[10] Tail,// c57a
-        // c57b
-        uint8 venue,// c60
-        uint16 f1,
-        // c63
-        char[9] Acct,// c68
-    },// c70
-}// c71a
-
-// c71b
-packet Trade {
-    // c74
-    char[] x,// c77a
-    // c77b
-    zchar[6] Note,// c82a
-    // c82b
-    repeat Reject,
-}
-
-root packet Order {
-    // c90a
-    // c90b
-    Cancel,
-    Logout,// c94a
-    // c94b
-    u64 Acct,
-    u32 OrderId,
-    match OrderId as Body {
-        [127, 70] : Reject,
-        177 : Trade,
-        // c117
-        58 : Logout,
-        75 : Cancel,
-        // c125
-    },
-    u32 Tail @calculatedFrom(""CRC32""),// c133
-}// c134")).
-Eval vm_compute in ("<<<M1462>>>" ++ check (runes_of_ascii "// top
-options // c0a
-  // c0b
-{ // c1a
-  // c1b
-LittleEndian // c2
-= false ; // c5a
-  // c5b
-StringPrefixLenType // c6a
-  // c6b
-= // c7
-u8 // c8
-; ArrayPrefixLenType // c10a
-  // c10b
-= u16 // c12
-; FixedStringPadFromLeft =
-    // c15
-false // c16
-; // c17
-} // c18
-packet
-    // c19
-Heartbeat // c20
-{
-    // c21
-u8 // c22a
-  // c22b
-seqNo
-    // c23
-,
-    // c24
-@rightPad ( '\x00' ) // c28
-char[ 8
-    // c30
-] x // c32
-, } root // c35
-packet
-    // c36
-Trade
-    // c37
-{
-    // c38
-repeat
-    // c39
-Heartbeat , // c41a
-  // c41b
-float32 // c42
-OrderId
-    // c43
-, i64 // c45
-Acct // c46
-, // c47a
-  // c47b
-u16
-    // c48
-Qty , u16
-    // c51
-clOrdID // c52a
-  // c52b
-, match
-    // c54
-clOrdID as // c56
-Body
-    // c57
-{ 131 :
-    // c60
-Heartbeat // c61a
-  // c61b
-, // c62
-} // c63
-, // c64a
-  // c64b
-u16 // c65a
-  // c65b
-sym // c66a
-  // c66b
-@calculatedFrom( ""CRC32""
-    // c68
-) // c69a
-  // c69b
-, // c70a
-  // c70b
-}
-    // c71
-")).
-Eval vm_compute in ("<<<M1529>>>" ++ check (runes_of_ascii "
-
-  options
-
-{
-	LittleEndian
-=
-	true
-
-; 
-StringPrefixLenType= u64; ArrayPrefixLenType
-    =  u8 ;
-	FixedStringPadChar
-
-= '0'
-;
-    } packet
-
-Reject
-
-{ i32 Ref
-    ,repeat
-    f64
-    OrderId , repeat
-
-    InNote12  {
-
-u8 
-pad0  ,
-    }
-	,@leftPad 
-( ' '
-    )
-	char[
-6 ]
-count,
-
-} packet
-    Logout
-{
-	zchar[
-6
-
-]Tail
-    ,
-
-repeat  string
-
-venue
-
-, }	packet Cancel 
-{
-u64 count ,
-    repeat char[	5
-
-    ] 
-lastPx
-	, i64 Tail,
-	repeat InF140{
-repeat Logout
-	,repeat Reject
-	,
-    } 
-,
-    }
-    root
-
-    packet
-Trade	{
-
-repeat
-InMsgkind39 {repeat
-	Reject , 
-char[
-	4 ]	Px
-,
-	}
-    , 
-string	Acct
-,  uint16	price	,
-f32 OrderId	,
-
-    u16
 x
-,
 
-    u16
-
-    clOrdID
-	@lengthOf(  Body	)
-,match x 
+{ match  Header
 as
-
-Body	{ 
-178
-
-    :Logout ,	13 : Cancel
-
-,
-174:Reject
-
-,  }
-,
-u16 Flags @calculatedFrom(""CR\
-C32""
-)	, 
-}
-")).
-Eval vm_compute in ("<<<M308>>>" ++ check (runes_of_ascii "root packet options1 //	t
-{ @lengthOf( Packet )
-//x
-//	t
-repeat chars // " ++ [128512]%N ++ runes_of_ascii " emoji
-{ repeatCount
-u128 , match u as
-BodyLength/// triple
+	charz // trailing space 
 {
-[ 65535 ] :
-// trailing space 
-//x
-packetx // a // b
-,
-3 :
-    zchar ,
-255: roots """ ++ [233]%N ++ runes_of_ascii "t" ++ [233]%N ++ runes_of_ascii """// c
-: Header}
-    , i64 Packet,	char[]	uint8x @calculatedFrom(
-""// no comment""  ) `crlf
-line`
-,
-    } , string
-trueish , @leftPad  (' '  )
-i8i8	{/// triple
-float64
-T @lengthOf( leftPad )
-    ,// @lengthOf(
-u128 `" ++ [233]%N ++ runes_of_ascii "`
-    , lengthOf, // a // b
-matchKey ,
-    },
+00
+        // `tick` ""quote"" 'q'
+    	// " ++ [128512]%N ++ runes_of_ascii " emoji
+  :
+a1 
+,} ,
+
     repeat
-    char[1] MetaDataX	`a\`  ,
-// c
-// " ++ [128512]%N ++ runes_of_ascii " emoji
-@calculatedFrom( ""1"" )string chars
-    `it's` , char[] calculatedFrom
-    @lengthOf(
-    calculatedFrom) `doc`, rootA// @lengthOf(
-_x
-// `tick` ""quote"" 'q'
-/// triple
-`" ++ [28040; 24687; 31867; 22411]%N ++ runes_of_ascii "` , } MetaData calculatedFrom {  u tag `
-`,
-}
-")).
-Eval vm_compute in ("<<<M230>>>" ++ check (runes_of_ascii "//x
-root packet Z9_ { @calculatedFrom( ""a\\"")zchar[ 1] // @lengthOf(
-a1 @lengthOf(
-Z9_) ,
-@tag( 0123456789
-    )@lengthOf(
-Header ) @tag( 4294967296 ) uint8 u128  ,i16 msg_type// trailing space 
-, tag matchKey, repeat i8 options1 `tab	here` , repeat /// triple
-f32a Z9_,
-/// triple
-//	t
-match tag as Foo { 42 : Logon ,
-    [ 4294967296
-    ] : Pad , 3 :a1 , [007	, 1 ]
-: a1 ,}
-    ,// packet A { u8 x, }
-repeat zchar { repeat //
-u8 options1 // c
-, leftPad
-{	msg_type ,
-} ,
-leftPad@lengthOf( string_
-)
-    `a\` ,
-    }, zchar charz , string tag @calculatedFrom(
-""{,}"")
-, // " ++ [27880; 37322]%N ++ runes_of_ascii "
-}
-    packet// @lengthOf(
-u128 {@tag(// " ++ [27880; 37322]%N ++ runes_of_ascii "
-4294967296 ) @tag( 42
-) f32a @lengthOf( float )
-    `" ++ [233]%N ++ runes_of_ascii "` ,	}
-")).
-Eval vm_compute in ("<<<M1176>>>" ++ check (runes_of_ascii "// top
-MetaData // c0
-x_y_z // c1a
-  // c1b
-{ // c2
-char // c3a
-  // c3b
-body // c4
-, // c5a
-  // c5b
-f64 // c6
-i8i8 // c7a
-  // c7b
-`two words` // c8
-, // c9a
-  // c9b
-body // c10
-body `" ++ [28040; 24687; 31867; 22411]%N ++ runes_of_ascii "`
-    // c12
-, } // c14a
-  // c14b
-root packet chars // c17a
-  // c17b
-{
-    // c18
-@lengthOf( // c19a
-  // c19b
-i64_ // c20a
-  // c20b
-) chars , // c23a
-  // c23b
-i8i8
-    // c24
-{ // c25a
-  // c25b
-falsey
-    // c26
-@lengthOf( stringy ) // c29a
-  // c29b
-`doc` ,
-    // c31
-} // c32
-, x @lengthOf( // c35a
-  // c35b
-A // c36
-) // c37a
-  // c37b
-`crlf
-line`
-    // c38
-, } // c40a
-  // c40b
-")).
-Eval vm_compute in ("<<<M232>>>" ++ check (runes_of_ascii "packet
-    string_ { match charz as  len {
-7 : Pad
-    // @lengthOf(
-    } ,
-    match //	t
-i64_ as string_ { // @lengthOf(
-007:float [0 ]:Packet
-// `tick` ""quote"" 'q'
-//
-, 10 : leftPad
-,
-}
-,
-char[]
-// trailing space 
-// @lengthOf(
-roots, char[ 3 ] Header `it's` ,
-options1 @calculatedFrom( ""packet"" )`" ++ [233]%N ++ runes_of_ascii "`
-,
-BodyLength
-// @lengthOf(
-//x
-, repeat char[	65535 // " ++ [27880; 37322]%N ++ runes_of_ascii "
-]  body , char[ 42 ]
-// a // b
-// " ++ [128512]%N ++ runes_of_ascii " emoji
-Packet// packet A { u8 x, }
-`" ++ [233]%N ++ runes_of_ascii "`  , repeat/// triple
-f64 float	`it's`, packetx
-matchKey , }
-")).
-Eval vm_compute in ("<<<M1941>>>" ++ check (runes_of_ascii "
-// top
-
-	packet  
-  // c0
-	u128	// c1
-  {// c2
-
-	@lengthOf( 
-// c3
-
-  body// c4a
-    // c4b
-    )	// c5
-	match	// c6
-	x_y_z// c7
-      as
-	// c8
-
-	u // c9
-	{	// c10a
-	// c10b
-""x y"" :	// c12a
-  // c12b
-
-  i8i8
-, 	 // c14a
-
-	// c14b
-		}	// c15a
-  // c15b
-	  ,
-    // c16
-
-	@tag( 
-// c17
-    255 // c18
-		)
-// c19
-	char[]  // c20
-  	roots	// c21a
-  // c21b
-	@lengthOf( 
-int 
-    // c23
-)
-    // c24
-	  ,// c25
-	} // c26")).
-Eval vm_compute in ("<<<M1354>>>" ++ check (runes_of_ascii "// top
-packet // c0a
-  // c0b
-B // c1
-{ // c2a
-  // c2b
-u8 // c3
-a // c4a
-  // c4b
-,
-    // c5
-} // c6
-root packet P // c9
-{ u8 // c11
-K // c12a
-  // c12b
-, // c13
-match
-    // c14
-K
-    // c15
-as Body // c17a
-  // c17b
-{
-    // c18
-1
-    // c19
-: B // c21
-, }
-    // c23
-, u16 // c25
-L @lengthOf( // c27a
-  // c27b
-Body // c28a
-  // c28b
-) // c29
-, // c30a
-  // c30b
-} // c31a
-  // c31b
-")).
-Eval vm_compute in ("<<<M74>>>" ++ check (runes_of_ascii "// packet A { u8 x, }
-root packet
-charz {
-    matchKey { repeat
-    Foo { // trailing space 
-uint8 chars @lengthOf(	x
-    ) , } //
-, pack{rootA@lengthOf( MetaDataX// c
-) , } // a // b
-, roots{zchar[	10	]
-    leftPad ,
-    } ,	repeat pack
-stringy`two words` ,	}, } packet rootA {char[ 10 ]
-    x_y_z
-`{ , }` , uint64 falsey ,
-    // " ++ [27880; 37322]%N ++ runes_of_ascii "
-    }
-")).
-Eval vm_compute in ("<<<M329>>>" ++ check (runes_of_ascii "
-options{MetaDataX =
-    char }packet packetx {match // packet A { u8 x, }
-string_
-    as trueish {""a\""b"" : crc // trailing space 
-,
-1 : calculatedFrom [
-1 ]  : u8x	, }
-, }options {}
-    MetaData Z9_
-    // " ++ [128512]%N ++ runes_of_ascii " emoji
-    {
-    string MetaDataX `` // trailing space 
-, }options{ o= '\x00';// trailing space 
-}")).
-Eval vm_compute in ("<<<M1582>>>" ++ check (runes_of_ascii "packet T {
-}
-
-packet string_ {
-    @tag(7)
-    repeat uint8 rootA,
-    @lengthOf(o)
-    float u,// trailing space 
-    Packet @calculatedFrom(""a\\""),
-    f32 repeatCount `say ""hi""`,
-}
-
-packet MetaDataX {
-    match leftPad as Packet {
-        007 : x,
-    },// trailing space 
-}")).
-Eval vm_compute in ("<<<M1748>>>" ++ check (runes_of_ascii "// top
-options {
-    // c1
-    LittleEndian = true;
-}
-
-// c6
-packet B {
-    // c9a
-    // c9b
-    u8 a,// c12
-    string s,// c15a
-    // c15b
-}// c16a
-
-// c16b
-root packet P {
-    u16 L @lengthOf(B),
-    // c26
-    B,// c28
-    u8 t,// c31
-}")).
-Eval vm_compute in ("<<<M1417>>>" ++ check (runes_of_ascii "packet
-Logon { string
-user
-	,
-
-    }
-
-    root
-packet
-Frame
-
-{
-u8	K 
-,
-	match
-K	as  Body{
-
-    1
-	:Logon  ,2 
-:  Logout
-
-,
-}
+	char[ 
+        // packet A { u8 x, }
+    	0123456789
+    ]rootA`line1
+line2` ,
+    uint64	tag`" ++ [28040; 24687; 31867; 22411]%N ++ runes_of_ascii "`
+,  f32  Z9_  , 	 // c
+  }
 
 , 
-Tail,}
-	packet
-	Logout	{
-    u16
-    reason,
-    }
-packet Tail	{
+@leftPad 
+()	@leftPad	( '\x00'	)
+	float32
+    tag  // @lengthOf(
+  	,
+    repeat 
+f32 T 	 //x
+	`" ++ [28040; 24687; 31867; 22411]%N ++ runes_of_ascii "` ,@lengthOf(	chars
 
-u32
-
-    crc
-
-, } ")).
-Eval vm_compute in ("<<<M424>>>" ++ check (runes_of_ascii "options
-{
-matchKey = 42/// triple
-x=char[] ;
-// packet A { u8 x, }
-//
-charz
-=
-// packet A { u8 x, }
-// trailing space 
-true  ; } MetaData BodyLength
-{
-uint8
-pack,zchar[ 1]float ,  float32 x_y_z `` ,u32
-_x,i16 body  , }
-")).
-Eval vm_compute in ("<<<M584>>>" ++ check (runes_of_ascii "options
-{
-matchKey = 42/// triple
-x='0' ;
-// packet A { u8 x, }
-//
-charz
-=
-// packet A { u8 x, }
-// trailing space 
-true  ; } MetaData BodyLength
-{
-uint8
-pack,zchar[ 1]float ,  float32 x_y_z `` ,u32
-_x,i16 caf" ++ [233]%N ++ runes_of_ascii "_1  , }
-")).
-Eval vm_compute in ("<<<M448>>>" ++ check (runes_of_ascii "options
-{
-matchKey = 42/// triple
-x='0' ;
-// packet A { u8 x, }
-//
-charz
-=
-// packet A { u8 x, }
-// trailing space 
-true  } ; MetaData BodyLength
-{
-uint8
-pack,zchar[ 1]float ,  float32 x_y_z `` ,u32
-_x,i16 body  , }
-")).
-Eval vm_compute in ("<<<M466>>>" ++ check (runes_of_ascii "options
-{
-matchKey = 42/// triple
-x='0' ;
-// packet A { u8 x, }
-//
-charz
-=
-// packet A { u8 x, }
-// trailing space 
-true  ; } MetaData BodyLength
-
-uint8
-pack,zchar[ 1]float ,  float32 x_y_z `` ,u32
-_x,i16 body  , }
-")).
-Eval vm_compute in ("<<<M1402>>>" ++ check (runes_of_ascii "
-
-  options	{	FixedStringPadChar
-
-    = '0';
-	}packet
-    Q
-{  zchar[
-
-4	]	z
-
-    , @rightPad
-(
-'\x00'
-
+    )
+	@calculatedFrom(""" ++ [128512]%N ++ runes_of_ascii """ 
 )
 
-char[3] n,char[ 
-5  ]
+@calculatedFrom( ""a	b""	)match
+calculatedFrom	as
+packetx{	""\n"" :
 
-d
-	, }root	packet
-R
-    { Q
-    ,
-zchar[
-8  ]top
-	,	repeat 
-zchar[
-2 
-] zs,
-	}")).
-Eval vm_compute in ("<<<M535>>>" ++ check (runes_of_ascii "options
-{
-matchKey = 42/// triple
-x='0' ;
-// packet A { u8 x, }
-//
-charz
-=
-// packet A { u8 x, }
-// trailing space 
-true  ; } MetaData BodyLength
-{
-uint8
-pack,zchar[ 1]float ,  float32 x_y_z `` ,")).
-Eval vm_compute in ("<<<M686>>>" ++ check (runes_of_ascii "// c
-packet i64_ {	char[] calculatedFrom , } packet
-trueish  {@calculatedFrom(
-""a\\"" ) o { i32 falsey@lengthOf( uint8x ),
-} packet } // `tick` ""quote"" 'q'
-options {// c
-Z9_ = ' '//
-}
-")).
-Eval vm_compute in ("<<<M676>>>" ++ check (runes_of_ascii "// c
-packet i64_ {	char[] calculatedFrom , } packet
-trueish  @calculatedFrom({
-""a\\"" ) o { i32 falsey@lengthOf( uint8x ),
-} , } // `tick` ""quote"" 'q'
-options {// c
-Z9_ = ' '//
-}
-")).
-Eval vm_compute in ("<<<M661>>>" ++ check (runes_of_ascii "// c
-packet i64_ {	char[] calculatedFrom , } packet
-trueish  {@calculatedFrom(
-""a\\"" ) o { i32 falsey@lengthOf( uint8x ),
-} , } // `tick` ""quote"" 'q'
-options {// c
-Z9_ = ' '")).
-Eval vm_compute in ("<<<M1705>>>" ++ check (runes_of_ascii "
-// top
-      root 	 // c0
-packet  P  
-      // c2
-    {	// c3
+    trueish
+, [ """",
+
+007 	 // " ++ [128512]%N ++ runes_of_ascii " emoji
+]	// trailing space 
+      :
+
+packetx , ""// no comment"": packetx [ 7
+,  0123456789
+    ]
+	:
+
+pack
+
+""" ++ [233]%N ++ runes_of_ascii "t" ++ [233]%N ++ runes_of_ascii """
+    : Packet // trailing space 
+    } 	 // `tick` ""quote"" 'q'
+
+  ,  @calculatedFrom(	""\n""
+	) 	 //x
 	repeat
 
-// c4
+u16
 
-char cs
-// c6
-,
-
-    u8 
-x	// c9a
-		// c9b
-,// c10a
-// c10b
-	}  
-  // c11
-")).
-Eval vm_compute in ("<<<M102>>>" ++ check (runes_of_ascii "packet u128
-{ i64 A `{ , }`
-,
-    } MetaData
-    i64_ {
-trueish
-Z9_ ,
-// " ++ [128512]%N ++ runes_of_ascii " emoji
-// `tick` ""quote"" 'q'
-} options { metadata = i16 ; charz=
-false}
-")).
-Eval vm_compute in ("<<<M1777>>>" ++ check (runes_of_ascii "packet A {
-    match k as n {
-        [
-            ""a"", 22, ""c c"", 4, ""e"",
-            66, ""g"", 8
-        ] : B,
-        2 : C,
-    },
-}")).
-Eval vm_compute in ("<<<M70>>>" ++ check (runes_of_ascii "MetaData f32a{uint8 // a // b
-repeatCount, x_y_z i8i8, f32 msg_type , charz
-lengthOf `tab	here`, char[	7
-    ]chars,float  x ,
+As  ,
 }
-")).
-Eval vm_compute in ("<<<M936>>>" ++ check (runes_of_ascii "packet A {
-    u16 len @lengthOf(body) `a
-    b
-  c`,
-    u32 crc @calculatedFrom(""CRC32"") `a
-    b
-  c`,
-    string body,
-}")).
-Eval vm_compute in ("<<<M2034>>>" ++ check (runes_of_ascii "packet
-    Logon {
-    @tag( 42	)@rightPad	( 
-	    // c
-' '
-	) 
-@leftPad
 
-( 
-)
+root
+	packet
+uint8x
+{
+	@lengthOf(
+stringy )string a1
 
-repeat 
-trueish  { string 
-T 
-,} 
+    ,
+	    // a // b
+
+// 50% %s
+    int16  i64_`" ++ [28040; 24687; 31867; 22411]%N ++ runes_of_ascii "`
+
+,	int16 Logon@calculatedFrom(  ""// no comment""// packet A { u8 x, }
+      ) ,MetaDataX MetaDataX`it's`  ,	i64_ 
 ,
-} ")).
-Eval vm_compute in ("<<<M1944>>>" ++ check (runes_of_ascii "packet Logon {
-    @tag(42)
-    @rightPad(' ')
-    @leftPad()
-    repeat trueish {
-        string T,
-    },
-    // c
-}")).
-Eval vm_compute in ("<<<M590>>>" ++ check (runes_of_ascii "uint16
-    // trailing space 
-    matchKey
-{ u64 chars // a // b
-,char[] lengthOf `// not a comment`
-    , //	t
-}")).
-Eval vm_compute in ("<<<M893>>>" ++ check (runes_of_ascii "packet A {
-  match k as n {
-    [""a"", ""bb"", ""c c"", ""d"", ""e"", ""f"", ""g"", ""h"", ""i"", ""j"", ""k""] : B
-    2 : C
-  },
-}")).
-Eval vm_compute in ("<<<M1638>>>" ++ check (runes_of_ascii "options {
-    msg_type = 00
-    string_ = 0
-    x = zchar[255];
-    leftPad = false;
-    f32a = 007;// " ++ [27880; 37322]%N ++ runes_of_ascii "
-}")).
-Eval vm_compute in ("<<<M1254>>>" ++ check (runes_of_ascii "packet
-// c
-calculatedFrom { @tag( 4294967296 ) u msg_type , char[ 3 ] crc @lengthOf( len ) `u8 x,` , }")).
-Eval vm_compute in ("<<<M1286>>>" ++ check (runes_of_ascii "packet calculatedFrom { @tag( 4294967296 ) u msg_type , char[ 3 ] crc @lengthOf( len ) `u8 x,`
-// c
-, }")).
-Eval vm_compute in ("<<<M898>>>" ++ check (runes_of_ascii "packet A {
-  match k as n {
-    [1, 22, ""c c"", 4, 5, ""f"", 7, 8, ""i"", 10, 11] : B,
-    2 : C
-  },
-}")).
-Eval vm_compute in ("<<<M1132>>>" ++ check (runes_of_ascii "packet Logon // c
-{ @tag( 42 ) @rightPad ( ' ' ) @leftPad ( ) repeat trueish { string T , } , }")).
-Eval vm_compute in ("<<<M1164>>>" ++ check (runes_of_ascii "packet Logon { @tag( 42 ) @rightPad ( ' ' ) @leftPad ( ) repeat trueish { string T // c
-, } , }")).
-Eval vm_compute in ("<<<M271>>>" ++ check (runes_of_ascii "packet BodyLength { @tag(	007
-)
-char[ 65535
+    match matchKey
+as
+zchar {""1"" :
+    As [
+0 
 ]
-    string_
-`u8 x,`,
-    // @lengthOf(
-    }")).
-Eval vm_compute in ("<<<M1808>>>" ++ check (runes_of_ascii "options {
-    Packet = zchar[3]
-    u128 = zchar[42]
-    a1 = '\x00';
-    crc = 0;//	t
-}")).
-Eval vm_compute in ("<<<M1630>>>" ++ check (runes_of_ascii "packet A {
-    B b `x
-        `,
-    B `x
-        `,
-    repeat B bs `x
-        `,
-}")).
-Eval vm_compute in ("<<<M1215>>>" ++ check (runes_of_ascii "packet o { @tag(
-// c
-42 ) repeat x { char[ 0123456789 ] i64_ , } , } options { }")).
-Eval vm_compute in ("<<<M1596>>>" ++ check (runes_of_ascii "MetaData Z9_ {
-    //	t
-    // " ++ [27880; 37322]%N ++ runes_of_ascii "
-    u128 Foo,
-    lengthOf uint8x `say ""hi""`,
-}")).
-Eval vm_compute in ("<<<M839>>>" ++ check (runes_of_ascii "packet A {
-  match k as n {
-    [1, 22, 007, 4, 5, 66, 7] : B
-    2 : C
-  },
-}")).
-Eval vm_compute in ("<<<M820>>>" ++ check (runes_of_ascii "packet A {
-  match k as n {
-    [1, 22, ""c c"", 4, 5] : B,
-    2 : C
-  },
-}")).
-Eval vm_compute in ("<<<M1327>>>" ++ check (runes_of_ascii "MetaData _x { zchar[ 4294967296 ] lengthOf `// not a comment` , } // c
-")).
-Eval vm_compute in ("<<<M793>>>" ++ check (runes_of_ascii "packet A {
-  match k as n {
-    [""a"", 22, ""c c""] : B
-    2 : C
-  },
-}")).
-Eval vm_compute in ("<<<M1988>>>" ++ check (runes_of_ascii "packet A{ Inner	{match
-k
-    as n
-{
-	[ 1]	:  B
-, }
-, 
+: 
+f32a
+
+    ,
+
+[""x y""	]
+:body ,
+
+""it's"" 
+: _x
+
+, /// triple
+  [
+    """ ++ [28040; 24687]%N ++ runes_of_ascii """
+,
+007  ] :
+
+    matchKey ""x y""	: x_y_z ,
+	}
+	,
+	@calculatedFrom(  // " ++ [128512]%N ++ runes_of_ascii " emoji
+
+""" ++ [128512]%N ++ runes_of_ascii """)int64 o
+    @lengthOf(  body
+
+    )
+, // `tick` ""quote"" 'q'
+	asx
+	{chars `say ""hi""` //x
+	,
+i64
+    falsey , 
+i8
+
+    zchar
+`two words`
+
+,
+
+char[
+    255 
+]
+
+    tag
+	@calculatedFrom( 
+"""" )	, }
+,  char[] Pad
+
+    @lengthOf(
+
+charz) `
+`
+	,
+@tag( 007
+)  @tag(
+255
+)
+    repeat 
+u64
+x  , }  packet  metadata
+	{	match BodyLength
+	as	u128{
+4294967296 :
+trueish
+
+    ,
+	10 :
+	_x
+
+    ""a\""b""	: 
+int
+
+    , 007  :
+Logon ,
+
+""" ++ [233]%N ++ runes_of_ascii "t" ++ [233]%N ++ runes_of_ascii """:
+Z9_
+    ,// trailing space 
+  [
+
+42  
+  //x
+	  ,
+00
+	]
+: 
+    // packet A { u8 x, }
+  	u128
 }
-    ,}
-")).
-Eval vm_compute in ("<<<M133>>>" ++ check (runes_of_ascii "packet string_ // `tick` ""quote"" 'q'
-{ u
-//
-// " ++ [128512]%N ++ runes_of_ascii " emoji
-, }
-")).
-Eval vm_compute in ("<<<M175>>>" ++ check (runes_of_ascii "packet
-    A {
-//	t
-/// triple
+
+, zchar[
+
+    0123456789	]  chars  `a\` ,	match // a // b
+trueish
+	as
+tag  { // @lengthOf(
+  0: zchar
+
+, 
+    // @lengthOf(
+  } ,
+
+zchar[	4294967296	]	lengthOf	,
+
+    asx
+@lengthOf(
+	tag
+)//x
+    ,
+
+    char[ 65535 ] u @lengthOf( 
+x_y_z  // " ++ [128512]%N ++ runes_of_ascii " emoji
+
+)
+
+    `two words`  // 50% %s
+	,
+    _x @calculatedFrom( """ ++ [233]%N ++ runes_of_ascii "t" ++ [233]%N ++ runes_of_ascii """) 
+`{ , }` ,
+	@tag(3 //x
+	)	zchar[	255 ]
+    Header
+`` , float32 crc
+
+, 
+Z9_@lengthOf(
+
+    body
+
+    )
+
+`two words` , } root
+packet f32a  {
+@rightPad (
+)	string
+
+    u8x
+	`say ""hi""`
+
+    ,
+} options {  } ")).
+Eval vm_compute in ("<<<M3537>>>" ++ check (runes_of_ascii "// top
+options // c0a
+  // c0b
+{ // c1
+StringPrefixLenType // c2
+=
+    // c3
+u64
+    // c4
+;
+    // c5
+ArrayPrefixLenType =
+    // c7
+u8 // c8a
+  // c8b
+; FixedStringPadChar
+    // c10
+=
+    // c11
+'0' // c12
+;
+    // c13
+}
+    // c14
+packet Logout // c16a
+  // c16b
+{
+    // c17
+char[] f1
+    // c19
+, repeat
+    // c21
+u64 // c22a
+  // c22b
+Qty
+    // c23
+, // c24
+string Acct ,
+    // c27
+char[] // c28
+Side2 ,
+    // c30
 repeat
-char[] _x ,  }
+    // c31
+i64 // c32
+clOrdID
+    // c33
+, } packet // c36a
+  // c36b
+Logon // c37a
+  // c37b
+{ i64 // c39
+tag7 // c40
+,
+    // c41
+Logout , // c43
+@rightPad // c44
+( // c45
+'\x00' // c46a
+  // c46b
+) char[
+    // c48
+4 ] Qty
+    // c51
+, // c52a
+  // c52b
+repeat char[ // c54a
+  // c54b
+4 ] // c56a
+  // c56b
+venue
+    // c57
+, // c58a
+  // c58b
+string seqNo , }
+    // c62
+packet // c63
+Party // c64
+{
+    // c65
+Logon , // c67
+float32 // c68a
+  // c68b
+x // c69
+, uint32 // c71a
+  // c71b
+price
+    // c72
+,
+    // c73
+repeat // c74
+string // c75a
+  // c75b
+venue
+    // c76
+, repeat // c78
+char[ // c79
+3
+    // c80
+] // c81a
+  // c81b
+seqNo // c82
+,
+    // c83
+} // c84a
+  // c84b
+packet // c85
+Leg // c86a
+  // c86b
+{ string // c88
+Flags
+    // c89
+,
+    // c90
+i32 Ref , repeat
+    // c94
+Logout // c95
+, // c96a
+  // c96b
+repeat // c97a
+  // c97b
+u16 // c98a
+  // c98b
+x // c99a
+  // c99b
+,
+    // c100
+}
+    // c101
+packet Cancel { // c104
+repeat Logon
+    // c106
+, // c107a
+  // c107b
+int8 // c108a
+  // c108b
+Ref ,
+    // c110
+Logout ,
+    // c112
+char[] // c113
+OrderId // c114
+, int16 Tail , }
+    // c119
+root packet
+    // c121
+Heartbeat // c122a
+  // c122b
+{ zchar[
+    // c124
+8 // c125a
+  // c125b
+] // c126
+price // c127
+, // c128
+repeat // c129
+Logout , // c131
+Cancel // c132a
+  // c132b
+, // c133
+char[]
+    // c134
+Qty ,
+    // c136
+int32 // c137a
+  // c137b
+x // c138
+, Leg
+    // c140
+, // c141
+} // c142a
+  // c142b
 ")).
-Eval vm_compute in ("<<<M1865>>>" ++ check (runes_of_ascii "packet A {
-    u16 len @lengthOf(body) `d`,
-}")).
-Eval vm_compute in ("<<<M1107>>>" ++ check (runes_of_ascii "MetaData zchar
+Eval vm_compute in ("<<<M329>>>" ++ check (runes_of_ascii "  packet
+    charz { char[]stringy @lengthOf( MetaDataX
+    )	,
+    @calculatedFrom(""a\\""
+    )
+//x
+/// triple
+@calculatedFrom( ""\" ++ [233]%N ++ runes_of_ascii """) // trailing space 
+@tag(
+// packet A { u8 x, }
 // c
-{ zchar[ 3 ] Pad , }")).
-Eval vm_compute in ("<<<M1629>>>" ++ check (runes_of_ascii "packet A {
-    u8 x `a
-    
-    b`,
-}")).
-Eval vm_compute in ("<<<M957>>>" ++ check (runes_of_ascii "root packet A {
-    u8 x `
-x`,
-}")).
-Eval vm_compute in ("<<<M1002>>>" ++ check (runes_of_ascii "packet A {
- u8 x `d" ++ [8192]%N ++ runes_of_ascii "`, // c" ++ [8192]%N ++ runes_of_ascii "
-}")).
-Eval vm_compute in ("<<<M1605>>>" ++ check (runes_of_ascii "packet
+42  )
+    // packet A { u8 x, }
+    asx lengthOf
+    , }packet
+    leftPad {
+} packet stringy { match calculatedFrom	as
+MetaDataX// a // b
+{ [""a\\"" ,
+    """ ++ [28040; 24687]%N ++ runes_of_ascii """ , ""CRC32"" , 10 ]:
+    x //
+,0
+    // c
+    :
+falsey , 1 :
+u8x , 65535
+: Foo , } , }
+//
+// @lengthOf(
+packet  i8i8 {repeat
+    Logon, repeat
+a1
+chars
+    `// not a comment` , zchar[ // packet A { u8 x, }
+0123456789
+    ] int
+    ,@calculatedFrom( //x
+""{,}""
+    /// triple
+    ) roots,@rightPad
+(
+    ' '
+    )
+@calculatedFrom( """ ++ [28040; 24687]%N ++ runes_of_ascii """ ) len, @tag(3 ) crc
+@lengthOf(
+    asx
+)  ``
+    // @lengthOf(
+    ,
+    }packet options1 {
+@rightPad
+( '0'// c
+) // trailing space 
+@calculatedFrom( """" // packet A { u8 x, }
+) // packet A { u8 x, }
+@tag( 4294967296)
+repeat MetaDataX zchar `crlf
+line`
+, o { u8 // @lengthOf(
+body
+    @lengthOf(
+Foo
+    )// c
+,  repeat char u8x`
+`, A  @lengthOf( matchKey ) ,  }//x
+,@calculatedFrom(""a	b"") matchKey msg_type
+,@lengthOf(
+    options1 )	repeat
+string Logon
+    // packet A { u8 x, }
+    , @calculatedFrom( /// triple
+""" ++ [128512]%N ++ runes_of_ascii """)  @calculatedFrom(
+""" ++ [233]%N ++ runes_of_ascii "t" ++ [233]%N ++ runes_of_ascii """ ) //	t
+i64 Logon, @lengthOf(  float )
+@calculatedFrom(//
+""a\""b"" ) chars matchKey `// not a comment` ,@rightPad // trailing space 
+(
+    ' '
+//	t
+// a // b
+) repeat MetaDataX{
+match
+float // " ++ [27880; 37322]%N ++ runes_of_ascii "
+as
+    charz { 0123456789	:
+string_ } , },// `tick` ""quote"" 'q'
+match  f32a as stringy
+    { """ ++ [28040; 24687]%N ++ runes_of_ascii """ :
+    _x , 1 :
+stringy ,
+    65535 : u8x  65535: asx, } ,
+i8
+asx
+,
+    }")).
+Eval vm_compute in ("<<<M4398>>>" ++ check (runes_of_ascii "root packet 
+    // packet A { u8 x, }
+    	// trailing space 
+    T
 
-    A {} 	 // c" ++ [8202]%N ++ runes_of_ascii "
+{ u64
+
+    int ,
+match
+
+rootA
+as 
+BodyLength 
+{""it's""
+:  o 
+    // c
+// packet A { u8 x, }
+	, 10 : int,
+""packet"":string_  ,[  // `tick` ""quote"" 'q'
+
+""abc""	, 3 ,0123456789 
+  // packet A { u8 x, }
+		,  // " ++ [27880; 37322]%N ++ runes_of_ascii "
+    007
+, 7
+,
+	3
+
+    ,
+	007  ]
+    // 50% %s
+
+	// `tick` ""quote"" 'q'
+:int
+	, },
+match	i64_ as
+options1{ 
+0123456789:	// packet A { u8 x, }
+
+zchar
+    ,
+
+00
+:  pack,
+}
+
+,  match 
+zchar  as
+options1 {
+	""it's"":	matchKey ,""1""// " ++ [128512]%N ++ runes_of_ascii " emoji
+: u128 	 // packet A { u8 x, }
+
+	, // `tick` ""quote"" 'q'
+  	""`tick`"":
+trueish
+255
+
+//x
+    	// " ++ [128512]%N ++ runes_of_ascii " emoji
+  :
+	crc  , 
+    // `tick` ""quote"" 'q'
+  // @lengthOf(
+	}  ,
+    // trailing space 
+  } packet
+
+//
+    //	t
+    	Z9_
+	{ 
+@leftPad	(  '\x00'
+    ) 
+repeat
+
+float32
+
+Packet,@lengthOf( x) 
+string u,	@calculatedFrom(  ""\" ++ [233]%N ++ runes_of_ascii """ ) zchar[ 65535
+
+    ]
+As@lengthOf(BodyLength 
+/// triple
+
+  // " ++ [128512]%N ++ runes_of_ascii " emoji
+  	)
+
+, 
+string
+leftPad @calculatedFrom( ""a\\""
+    )  ,
+	@rightPad
+    ('\x00'
+) 	 // c
+
+  rootA {
+
+repeat
+
+Packet 	 // trailing space 
+	{
+
+char[ 10
+]  matchKey
+
+    `crlf
+line`
+	, 
+
+    // a // b
+  	}
+    ,
+
+    }
+,match  Packet  as
+
+uint8x	{255  :
+	roots
+
+    , 
+[ 42,3
+, 
+""\" ++ [233]%N ++ runes_of_ascii """	]
+: repeatCount
+}
+    ,
+
+    repeat
+
+    _x `two words`
+,
+	} MetaData
+    tag 
+        // " ++ [128512]%N ++ runes_of_ascii " emoji
+  // " ++ [27880; 37322]%N ++ runes_of_ascii "
+	  {Pad
+Header // packet A { u8 x, }
+    ,
+	}
+
 ")).
-Eval vm_compute in ("<<<M1294>>>" ++ check (runes_of_ascii "// c
-packet lengthOf { }")).
-Eval vm_compute in ("<<<M1664>>>" ++ check (runes_of_ascii "
+Eval vm_compute in ("<<<M131>>>" ++ check (runes_of_ascii "
+packet Pad { zchar[ 00 ] Z9_ `doc`, @calculatedFrom( """ ++ [128512]%N ++ runes_of_ascii """ ) repeat f64 lengthOf
+`doc` ,match i8i8
+// @lengthOf(
+// @lengthOf(
+as crc { [ ""1""  , 10 //	t
+,
+3	,
+// trailing space 
+// a // b
+""packet""// c
+,
+""{,}"" ]
+:_x ,
+}
+,
+zchar @calculatedFrom( ""a\""b"" ) ,
+    @lengthOf(
+    Packet ) match // `tick` ""quote"" 'q'
+asx
+    as //x
+calculatedFrom// `tick` ""quote"" 'q'
+{4294967296 : string_
+,
+10 : body /// triple
+[ //
+007 ,
+0123456789 ] :	MetaDataX ,  65535 :A ,
+    42: BodyLength} ,@lengthOf( metadata ) @tag( 10 ) // 50% %s
+uint32 pack
+`doc`	,  uint8x f32a
+    , match Logon as body {[/// triple
+255
+    //
+    , ""a\\""
+]: leftPad}	,
+    @leftPad( )  u8 x
+    @lengthOf( body )// c
+, } packet
+    body
+{ // trailing space 
+@lengthOf(lengthOf ) repeat
+float64 matchKey ,
+    @tag(
+1)
+    @tag( // @lengthOf(
+1
+)
+    @calculatedFrom( ""a\\"") x_y_z @lengthOf(
+    asx )
+// packet A { u8 x, }
+// 50% %s
+,
+match x as Header
+{
+[ 0 ,	""a\\""	, 0 ,0123456789 , 65535, ""`tick`"" ] : rootA
+    ,[  007 , """ ++ [128512]%N ++ runes_of_ascii """ ] : roots,
+3 : matchKey ,
+[ 00
+]
+:leftPad ,""it's""	: leftPad
+, ""1"" :uint8x } ,
+// c
+// packet A { u8 x, }
+match
+    // 50% %s
+    T as lengthOf	{ 42
+:packetx
+    ,}	, repeat
+u A ,
+@lengthOf(
+a1 ) u8x`tab	here`
+, string pack
+    // packet A { u8 x, }
+    , }")).
+Eval vm_compute in ("<<<M162>>>" ++ check (runes_of_ascii "packet
+// trailing space 
+// @lengthOf(
+asx{ // 50% %s
+body  repeatCount
+    ,
+@tag( 1 )
+repeat _x BodyLength
+, }  options{ len
+= false // packet A { u8 x, }
+; } packet
+    msg_type
+    { // @lengthOf(
+repeat string_ x , @tag( 007 )	@calculatedFrom( ""it's"" )@lengthOf(  u8x )
+uint32
+    BodyLength , @calculatedFrom( ""a\""b""  ) match a1// " ++ [27880; 37322]%N ++ runes_of_ascii "
+as matchKey{ 00
+: options1 , 4294967296 : // `tick` ""quote"" 'q'
+x_y_z , // @lengthOf(
+[3// packet A { u8 x, }
+,
+""a	b"" , 0123456789 ] :
+i64_
+    ,
+0 :leftPad , ""`tick`"" :int // " ++ [128512]%N ++ runes_of_ascii " emoji
+[""" ++ [28040; 24687]%N ++ runes_of_ascii """ ]
+    // a // b
+    :
+Z9_ ,
+}
+,@rightPad
+() int32 A ,
+@calculatedFrom( ""CRC32"")
+    @tag(
+65535 )
+    @lengthOf(
+packetx)
+    zchar[// packet A { u8 x, }
+10] u8x `two words`,
+    f32
+    zchar @lengthOf( Packet ), }
+MetaData u8x{
+} packet tag {
+repeat u8 T `say ""hi""`, leftPad, @lengthOf(matchKey // @lengthOf(
+)
+// trailing space 
+/// triple
+match Foo as T
+    { [  10
+    ,10 , ""1""
+,  0,
+    ""packet"" , 4294967296 ,
+""a\""b"" ,
+7
+    ] //	t
+:
+msg_type
+, 00 : // packet A { u8 x, }
+Pad }
+    , repeat packetx
+    // 50% %s
+    { Header Packet
+    ,uint16
+o
+,}
+,	@rightPad( ' ')
+    repeat int16 // trailing space 
+Logon
+, }")).
+Eval vm_compute in ("<<<M184>>>" ++ check (runes_of_ascii "
+options {
+    Pad = false ; }
+    packet f32a { zchar[
+3
+]
+i64_ @calculatedFrom(
+//
+// @lengthOf(
+""\" ++ [233]%N ++ runes_of_ascii """)
+, @lengthOf( rootA
+)
+roots { int32 //	t
+metadata // `tick` ""quote"" 'q'
+@calculatedFrom(  ""abc""
+    ) ,	char[
+    10
+    ] stringy // packet A { u8 x, }
+@lengthOf(pack
+)`two words` , _x rootA ,  } ,
+    @calculatedFrom( ""`tick`"" ) match asx as Z9_{	00  :
+    repeatCount , [	10
+, 007
+,""it's"" , 4294967296 , 4294967296
+// 50% %s
+// trailing space 
+]:pack ,
+}
+, } MetaData roots {char[ 3 ]	charz	, char[]
+u8x , } root packet u8x	{} root packet asx{	rootA {
+repeat string
+//
+// `tick` ""quote"" 'q'
+repeatCount `u8 x,` ,
+    match len as
+    Logon {/// triple
+0 : len }
+    //
+    ,repeat// `tick` ""quote"" 'q'
+i64_ T
+    // packet A { u8 x, }
+    `doc` ,
+    // 50% %s
+    } ,/// triple
+Logon
+@lengthOf( trueish	) , @tag(
+    255 )
+    repeat	zchar[	007
+// 50% %s
+// trailing space 
+] float ,	u32 // c
+As @calculatedFrom(""{,}"")
+, Z9_ @calculatedFrom(
+//x
+//	t
+"""") ,lengthOf ,
+@lengthOf( _x ) tag
+{
+repeat T `" ++ [233]%N ++ runes_of_ascii "` ,
+    // a // b
+    }
+    ,
+i64 tag// c
+@calculatedFrom(
+    ""abc""  ) , }")).
+Eval vm_compute in ("<<<M3802>>>" ++ check (runes_of_ascii "packet
 
-  packet
-	A
+    zchar 
+{repeat	// packet A { u8 x, }
+char[	10
+]	/// triple
+
+repeatCount
+
+    `line1
+line2`
+,  zchar[10 ]
+	// packet A { u8 x, }
+
+//
+    rootA @calculatedFrom(
+
+""packet"")	, f32
+crc`{ , }`	// trailing space 
+
+,
+    repeat char[255
+]
+
+    msg_type , }options
 
 {
-	} ")).
-Eval vm_compute in ("<<<M1016>>>" ++ check (runes_of_ascii "// c" ++ [8233]%N ++ runes_of_ascii "
-packet A {
+	u8x
+	= 
+""\n""
+
+; }
+
+    packet trueish{ repeat  // a // b
+		i64_ 
+,@calculatedFrom(""// no comment"" 	 // trailing space 
+) 
+      // `tick` ""quote"" 'q'
+	  @tag(
+	// @lengthOf(
+      4294967296
+	) repeat 
+matchKey {  As
+	`
+`
+	,
+	u8x `it's` ,  Packet @lengthOf( T
+
+)	// `tick` ""quote"" 'q'
+`a\`
+    ,
+}
+	, 	 // a // b
+
+	lengthOf
+
+    packetx
+	`" ++ [28040; 24687; 31867; 22411]%N ++ runes_of_ascii "` 	 //	t
+  	, roots  {
+	MetaDataX len,  zchar
+
+{ match Packet
+
+// 50% %s
+      // `tick` ""quote"" 'q'
+
+as  MetaDataX
+{
+    // 50% %s
+  // `tick` ""quote"" 'q'
+
+  1  :	// " ++ [128512]%N ++ runes_of_ascii " emoji
+  x_y_z
+
+7
+    :
+	o ,0123456789
+	: i64_	,
+
+}
+
+,	}
+
+    ,// a // b
+
+}
+,
+
+@calculatedFrom(
+	""// no comment""
+	) repeat
+int16
+charz
+    `line1
+line2`,// c
+
+@tag( 0123456789
+    )u  `
+` 
+
+    // @lengthOf(
+      , }
+
+")).
+Eval vm_compute in ("<<<M3566>>>" ++ check (runes_of_ascii "options {
+    LittleEndian = false;
+    StringPrefixLenType = u16;
+    ArrayPrefixLenType = u16;
+    FixedStringPadFromLeft = false;
+    FixedStringPadChar = ' ';
+}
+packet Heartbeat {
+    i32 f1,
+}
+packet Cancel {
+    char[] Note,
+}
+packet Fill {
+    u32 price,
+    float64 Ref,
+    zchar[8] tag7,
+    repeat Cancel,
+    int64 Acct,
+}
+packet Quote {
+    @rightPad('0') char[12] count,
+    char[] seqNo,
+}
+root packet Party {
+    Fill,
+    InMsgkind30 {
+        repeat u16 Ref,
+        repeat InCount61 {
+            repeat i8 sym,
+            char[] Ref,
+            repeat char[4] Qty,
+            repeat Heartbeat,
+        },
+        u32 venue,
+        uint16 Flags,
+    },
+    u8 Px,
+    repeat u16 Side2,
+    @rightPad('0') char[10] Qty,
+    @rightPad('\x00') char[1] clOrdID,
+    u8 Tail,
+    match Tail as Body {
+        [159, 182] : Quote,
+        155 : Heartbeat,
+        178 : Fill,
+        49 : Cancel,
+    },
+    u16 Ref @calculatedFrom(""CRC32""),
+}
+")).
+Eval vm_compute in ("<<<M766>>>" ++ check (runes_of_ascii "packet  tag{int Packet `say ""hi""`
+,@calculatedFrom( """" )
+    // `tick` ""quote"" 'q'
+    Packet ,
+@tag(
+1 )
+float64 rootA
+@lengthOf( msg_type
+) ,	match  trueish  as uint8x{ ["""" , ""a\\"" , 1
+, ""a\""b""
+] :
+    u
+, [	""a	b"" , ""// no comment""
+    //x
+    , ""{,}"" ,
+3 ,
+7]
+    :
+    uint8x , 3 : chars	[""// no comment""/// triple
+,
+    //	t
+    ""`tick`"" ] :
+    // c
+    u128, [ ""x y"" ,//	t
+""{,}"" ] :stringy , } // 50% %s
+,
+@rightPad
+( )@tag( 4294967296 ) @lengthOf(repeatCount )//
+int32 metadata`crlf
+line`, @calculatedFrom( ""a\\""
+    ) _x @lengthOf(
+matchKey )// 50% %s
+`tab	here`
+, repeat
+    body x
+    ,}
+    packet chars { i64 crc@lengthOf( //
+zchar	) , @tag(0123456789 // 50% %s
+)float64 calculatedFrom, } MetaData float	{ }packet Z9_{	@rightPad ( '\x00'
+    ) zchar @lengthOf( // 50% %s
+len )/// triple
+, asx chars`two words`
+, f32
+    zchar //	t
+@calculatedFrom( ""\" ++ [233]%N ++ runes_of_ascii """
+    ) `u8 x,`	, float32 u , }
+")).
+Eval vm_compute in ("<<<M4062>>>" ++ check (runes_of_ascii "packet packetx {
+}
+
+MetaData u128 {
+}
+
+MetaData calculatedFrom {
+    repeatCount Packet,
+    a1 rootA `{ , }`,
+    float64 rootA `" ++ [28040; 24687; 31867; 22411]%N ++ runes_of_ascii "`,
+    u trueish `100% of %d`,
+    As i8i8,// " ++ [128512]%N ++ runes_of_ascii " emoji
+}
+
+//x
+packet a1 {
+    // " ++ [128512]%N ++ runes_of_ascii " emoji
+    @lengthOf(packetx)
+    A @lengthOf(T) `" ++ [233]%N ++ runes_of_ascii "`,
+    repeat i32 rootA `" ++ [233]%N ++ runes_of_ascii "`,//x
+    repeat u16 metadata,
+    @calculatedFrom(""x y"")
+    @leftPad('0')
+    repeat zchar[255] matchKey,// a // b
+    match rootA as u128 {
+        [7, ""1"", ""{,}"", ""packet"", 3] : u,
+        """ ++ [233]%N ++ runes_of_ascii "t" ++ [233]%N ++ runes_of_ascii """ : tag,
+        /// triple
+        // " ++ [27880; 37322]%N ++ runes_of_ascii "
+        00 : T,
+        10 : leftPad,
+        ""x y"" : options1,
+        // packet A { u8 x, }
+        //
+    },
+    @calculatedFrom(""packet"")
+    match As as len {
+        4294967296 : trueish,
+        42 : lengthOf,
+    },
+    @tag(1)
+    string _x @lengthOf(string_),
+    char[] BodyLength @lengthOf(int) `100% of %d`,
+    i8 pack,
 }")).
-Eval vm_compute in ("<<<M1008>>>" ++ check (runes_of_ascii "packet A {
-}// c" ++ [8232]%N)).
-Eval vm_compute in ("<<<M1587>>>" ++ check (runes_of_ascii "options {
+Eval vm_compute in ("<<<M801>>>" ++ check (runes_of_ascii "options{ int
+= '\x00'f32a= '\x00' }packet // 50% %s
+_x {  @lengthOf( trueish ) match charz
+as Pad {
+    ""abc"" : float ,
+//	t
+// 50% %s
+42: // c
+pack , 10 : // packet A { u8 x, }
+rootA  , } ,
+}
+packet roots {	string f32a @lengthOf(metadata ) `" ++ [28040; 24687; 31867; 22411]%N ++ runes_of_ascii "`,// " ++ [128512]%N ++ runes_of_ascii " emoji
+repeatCount {repeat
+u,
+    f64 BodyLength , uint8 o@calculatedFrom(	""\n"" ) , repeat
+Z9_
+// packet A { u8 x, }
+/// triple
+,// c
+} ,
+f64
+a1@calculatedFrom( ""abc"" )`{ , }` , @calculatedFrom(""\" ++ [233]%N ++ runes_of_ascii """ )
+len
+    calculatedFrom ``
+,	@lengthOf( msg_type) string A`" ++ [233]%N ++ runes_of_ascii "` // packet A { u8 x, }
+, @lengthOf(  float )@tag( 4294967296 )
+    @calculatedFrom(
+    ""// no comment"" )
+    zchar[0
+] Foo `a\` , @tag(  255 )
+repeat zchar[ 255 ]	i8i8
+`doc`  ,
+    // c
+    i32	i8i8
+, // `tick` ""quote"" 'q'
+} root
+    packet metadata
+// 50% %s
+/// triple
+{	zchar[3 ]
+body `it's` , }
+")).
+Eval vm_compute in ("<<<M937>>>" ++ check (runes_of_ascii "root packet Foo {	string u128
+    , } packet	T  {@tag( 255 )
+    repeat char[3 ]
+    matchKey`// not a comment` , char[255
+] T
+,} root packet
+BodyLength{ @leftPad (//	t
+'\x00' )	@lengthOf( MetaDataX ) @calculatedFrom(
+""{,}"")
+// " ++ [128512]%N ++ runes_of_ascii " emoji
+// packet A { u8 x, }
+repeat leftPad `a\` ,  repeat
+float64 Foo,char[3 ]metadata, // trailing space 
+i8i8	@calculatedFrom(""" ++ [128512]%N ++ runes_of_ascii """
+) `a\` ,
+string
+msg_type`it's` , @rightPad
+( )char[ 65535] tag , zchar[00]MetaDataX , @leftPad (// packet A { u8 x, }
+' ' )
+    @calculatedFrom( """"
+) @lengthOf( matchKey // c
+) match BodyLength as roots { 4294967296: u8x // @lengthOf(
+[ // packet A { u8 x, }
+1
+,  ""\" ++ [233]%N ++ runes_of_ascii """	, 65535 ,
+    // trailing space 
+    0 ,
+    3
+    , ""packet""] :
+//x
+//	t
+Pad ,
+0	:string_
+    , },
+f32a @calculatedFrom( ""// no comment"" ) , uint8 x	, }
+")).
+Eval vm_compute in ("<<<M389>>>" ++ check (runes_of_ascii "packet
+i64_ {@lengthOf(
+falsey)
+    rootA
+options1
+    `" ++ [233]%N ++ runes_of_ascii "` ,}	options {int=
+// a // b
+// `tick` ""quote"" 'q'
+4294967296 ;
+Packet  =0123456789
+}
+MetaData o {char[] Packet
+,char[007 ] repeatCount ,
+lengthOf //	t
+packetx ,  } root packet
+x_y_z { repeat char[ 4294967296]  Packet // a // b
+,
+char[1 ] options1 @lengthOf(rootA )  ,
+    @calculatedFrom( ""\" ++ [233]%N ++ runes_of_ascii """ )
+    falsey@lengthOf(	int  )
+    /// triple
+    `// not a comment`
+    // 50% %s
+    ,
+repeat u32 MetaDataX
+, repeat i64
+lengthOf , @lengthOf(
+    repeatCount )
+    Packet
+A,zchar[ 00 ]
+pack // " ++ [27880; 37322]%N ++ runes_of_ascii "
+`a\` ,repeat
+pack
+    MetaDataX
+    `crlf
+line`, zchar[0
+] f32a @calculatedFrom(
+""abc"" )
+    `u8 x,` ,@rightPad
+( //x
+)
+u128 { float64 charz @calculatedFrom( ""`tick`""	), }, // c
+} /// triple")).
+Eval vm_compute in ("<<<M1341>>>" ++ check (runes_of_ascii "
+packet f32a {@lengthOf(
+    //x
+    i8i8 ) matchKey @lengthOf( Pad )`100% of %d` ,
+@tag(
+//
+// " ++ [27880; 37322]%N ++ runes_of_ascii "
+0123456789 )
+    // 50% %s
+    @calculatedFrom(
+// @lengthOf(
+//	t
+""abc""
+) repeat char[  0]
+    //	t
+    f32a /// triple
+, @tag( 3  )
+    @calculatedFrom( ""1""
+// " ++ [128512]%N ++ runes_of_ascii " emoji
+//	t
+)  @lengthOf( lengthOf) zchar[
+    1  ]zchar  , //x
+@calculatedFrom( ""a	b"" )@tag( 65535 ) char[ 65535 ]
+matchKey	,
+//x
+//	t
+int //x
+zchar	`{ , }`, repeat metadata As
+, @calculatedFrom( ""CRC32""
+    ) _x ,
+repeat Pad
+{uint8 Header
+    `{ , }` , }
+,@lengthOf( u128// packet A { u8 x, }
+)
+    i32 trueish @lengthOf(
+// c
+// `tick` ""quote"" 'q'
+chars ) `// not a comment`, @tag( 65535
+)
+repeat	u8x tag `a\` ,
+// " ++ [128512]%N ++ runes_of_ascii " emoji
+// @lengthOf(
 }")).
-Eval vm_compute in ("<<<M1044>>>" ++ check (runes_of_ascii "// c" ++ [8203]%N)).
+Eval vm_compute in ("<<<M566>>>" ++ check (runes_of_ascii "root packet
+options1{ @lengthOf( f32a )
+    //
+    repeat string float `crlf
+line`
+    , @lengthOf(  msg_type
+)
+@calculatedFrom(
+""{,}"" // @lengthOf(
+)	zchar[ 3
+] Header// c
+, // a // b
+f64 i64_
+    `100% of %d` , @lengthOf( Z9_ ) match Header as msg_type
+{""" ++ [233]%N ++ runes_of_ascii "t" ++ [233]%N ++ runes_of_ascii """ : leftPad, } ,Z9_
+    {match lengthOf as x_y_z { [
+    // @lengthOf(
+    10  ,4294967296 ] /// triple
+: packetx ""a	b""	: matchKey
+7	: leftPad , [ ""x y"" , 4294967296 // trailing space 
+,1,  ""a\""b"" ,""a\""b""
+    , // `tick` ""quote"" 'q'
+""x y""
+]:
+    string_	}	,char BodyLength `a\` /// triple
+,
+    } ,@rightPad ('\x00' ) i64 Pad ,
+//	t
+// " ++ [27880; 37322]%N ++ runes_of_ascii "
+@rightPad ( '\x00' )f32a @calculatedFrom(
+""a	b""
+//x
+// a // b
+) ,
+    }
+")).
+Eval vm_compute in ("<<<M3759>>>" ++ check (runes_of_ascii "// " ++ [27880; 37322]%N ++ runes_of_ascii "
+MetaData rootA {
+    f64 As,
+    f64 int `two words`,
+    f32 body `say ""hi""`,
+    zchar[4294967296] x,// a // b
+    uint32 lengthOf `
+    `,
+}
+
+root packet pack {
+    match pack as repeatCount {
+        ""CRC32"" : crc,
+        1 : calculatedFrom,
+        [""packet"", ""{,}"", 10, ""a\\""] : float,
+        //	t
+        ""packet"" : _x,
+        10 : o,
+    },
+    match a1 as T {
+        65535 : Z9_,
+        0 : _x,
+    },
+    u64 Pad `" ++ [233]%N ++ runes_of_ascii "`,
+    @calculatedFrom(""packet"")
+    MetaDataX pack,
+    char[007] uint8x,
+    i8i8 @lengthOf(msg_type) `u8 x,`,
+    @rightPad('\x00')
+    string_ `" ++ [233]%N ++ runes_of_ascii "`,
+}
+
+root packet a1 {
+}
+
+MetaData x_y_z {
+    i16 roots `say ""hi""`,
+}")).
+Eval vm_compute in ("<<<M312>>>" ++ check (runes_of_ascii "
+packet
+    u { // @lengthOf(
+match Foo as
+    a1 {
+[ 65535 ]
+    //
+    : chars, }	, body
+@calculatedFrom(
+    // `tick` ""quote"" 'q'
+    ""CRC32""
+    ) ,
+// trailing space 
+// `tick` ""quote"" 'q'
+char[ //	t
+0 ]
+    matchKey @calculatedFrom(""\" ++ [233]%N ++ runes_of_ascii """
+) ,}
+// trailing space 
+// " ++ [27880; 37322]%N ++ runes_of_ascii "
+packet crc {
+}packet Foo{ @calculatedFrom(	""" ++ [28040; 24687]%N ++ runes_of_ascii """	)@tag(
+7 ) @calculatedFrom( ""\" ++ [233]%N ++ runes_of_ascii """ ) match
+    stringy as pack	{// `tick` ""quote"" 'q'
+7
+    : string_,
+    3 : calculatedFrom  ,""`tick`"" : i64_, [ """ ++ [128512]%N ++ runes_of_ascii """
+    // c
+    ]
+: tag
+    , [ ""CRC32""	]
+    :rootA , } ,packetx
+@lengthOf(
+    calculatedFrom// @lengthOf(
+)
+    `a\`
+,
+i32
+Foo ,i16 calculatedFrom,}
+")).
+Eval vm_compute in ("<<<M4167>>>" ++ check (runes_of_ascii "
+
+  MetaData
+	asx	{u8
+    u128	`100% of %d` ,
+
+}
+	root
+
+packet 
+packetx
+{
+}
+	packet  options1
+	{@tag(007)
+	char[ 
+0// a // b
+	] lengthOf 
+
+    // trailing space 
+	, char[
+4294967296]
+
+rootA 
+,
+
+@tag( 
+    /// triple
+
+//
+	3
+    ) u @lengthOf(
+    _x )
+	,i64  zchar
+	@calculatedFrom(
+""\n"")
+	,  lengthOf  // trailing space 
+      int , @lengthOf(
+    Packet
+) 
+@lengthOf(
+	Logon
+)  string  f32a`tab	here`
+
+    , 
+repeat	//x
+  	string
+
+packetx,@calculatedFrom(
+
+""" ++ [128512]%N ++ runes_of_ascii """
+
+)
+
+    @calculatedFrom(""\" ++ [233]%N ++ runes_of_ascii """	)	repeat
+	f32a 
+      // 50% %s
+calculatedFrom , }root
+
+packet  len {
+}  
+  // trailing space 
+ 
+")).
+Eval vm_compute in ("<<<M940>>>" ++ check (runes_of_ascii "packet options1 {repeat	A /// triple
+{	BodyLength@calculatedFrom(  ""abc"" ) `line1
+line2` , //
+}	,
+u64 chars
+    `{ , }`  ,
+@calculatedFrom(""\n"" )u16
+_x, u16 As ,
+    // " ++ [128512]%N ++ runes_of_ascii " emoji
+    match  u as pack {  1 :x_y_z , } , @tag(// trailing space 
+4294967296
+) @calculatedFrom( ""a\\"" )
+    @leftPad(
+    // " ++ [128512]%N ++ runes_of_ascii " emoji
+    ' ' ) uint64
+chars@lengthOf(
+    Pad
+// a // b
+//	t
+) ,@leftPad ( '0'
+    ) char[] o	,
+@calculatedFrom(
+    ""\" ++ [233]%N ++ runes_of_ascii """ )
+char charz @lengthOf(
+    T ), repeat
+    // " ++ [27880; 37322]%N ++ runes_of_ascii "
+    msg_type rootA, @leftPad
+(  ' ' )@tag( 1 )char[
+0 ]
+    MetaDataX @lengthOf( Foo
+) , }
+")).
+Eval vm_compute in ("<<<M519>>>" ++ check (runes_of_ascii "root packet
+    //
+    charz { i8i8	@calculatedFrom( ""a\\""
+    ) , body
+roots ,
+} packet  msg_type{@lengthOf( asx// " ++ [128512]%N ++ runes_of_ascii " emoji
+) repeat Header { match BodyLength
+as msg_type {[
+    00 ,
+// c
+//x
+3// packet A { u8 x, }
+]: BodyLength , [ 0123456789
+    , ""it's""  ]: charz // " ++ [27880; 37322]%N ++ runes_of_ascii "
+0123456789 : msg_type }  , char[ 42
+    ]
+i64_
+@calculatedFrom(
+""packet""	)
+    `a\` , zchar[ 0 ]
+options1`tab	here` ,} , @calculatedFrom( ""\n"" ) zchar[	255 ] msg_type , //x
+match
+    repeatCount as
+    repeatCount {42 : rootA ,}, } options{
+calculatedFrom = true  }")).
+Eval vm_compute in ("<<<M1230>>>" ++ check (runes_of_ascii "root	packet
+    // `tick` ""quote"" 'q'
+    _x {  @lengthOf(
+f32a
+    )
+@lengthOf( x	)  @calculatedFrom( ""a	b"") calculatedFrom
+int `a\`
+, @tag(
+007 ) u8x	,
+    @leftPad
+(  '0' ) //
+u64
+u128@lengthOf(rootA
+    )
+    ,  @calculatedFrom( ""{,}"" /// triple
+)matchKey BodyLength, }
+// " ++ [128512]%N ++ runes_of_ascii " emoji
+// c
+MetaData i64_ { Logon // packet A { u8 x, }
+T
+,}packet
+    lengthOf
+{
+repeat
+    // trailing space 
+    Z9_{ zchar[ 007 ] Header@calculatedFrom( ""it's"" ) ,A{
+char[] Header //x
+`two words`
+    ,	}, string //	t
+i8i8 `crlf
+line` , } , }")).
+Eval vm_compute in ("<<<M4024>>>" ++ check (runes_of_ascii "MetaData
+Z9_
+    {stringy // 50% %s
+
+chars
+`" ++ [28040; 24687; 31867; 22411]%N ++ runes_of_ascii "` ,
+	uint32
+
+leftPad // @lengthOf(
+	`
+` 
+, u128
+stringy `crlf
+line` ,  // c
+  u16
+    packetx , } packet
+len {}	root	packet 
+matchKey {
+match 
+Header
+as f32a {
+
+    0123456789
+:
+    lengthOf
+    ,
+[ ""`tick`"" 
+	// a // b
+	  ,""packet""
+
+,
+""" ++ [233]%N ++ runes_of_ascii "t" ++ [233]%N ++ runes_of_ascii """ 
+]
+    :
+repeatCount	,
+
+    [// " ++ [27880; 37322]%N ++ runes_of_ascii "
+    4294967296	, 
+""// no comment"" 
+,
+7
+    ]  :
+Packet
+00:
+options1
+
+    ,
+	007
+:  trueish ,
+	""" ++ [28040; 24687]%N ++ runes_of_ascii """
+	:
+i8i8
+
+    ,}
+//
+		//x
+  , }
+    options{
+}
+	    //
+")).
+Eval vm_compute in ("<<<M165>>>" ++ check (runes_of_ascii "  options
+    // `tick` ""quote"" 'q'
+    { o// " ++ [27880; 37322]%N ++ runes_of_ascii "
+=
+    // a // b
+    ""a	b"" uint8x = u64 // " ++ [27880; 37322]%N ++ runes_of_ascii "
+} packet options1
+{ @tag( 007 ) roots
+@calculatedFrom(  ""CRC32"") , } MetaData
+    A{ options1 x
+`100% of %d` ,
+    len f32a `{ , }` ,
+    int16 a1// 50% %s
+`tab	here`	, float
+    crc	,
+    }root packet As {  @lengthOf( uint8x ) @calculatedFrom( """")@rightPad ( '0' ) repeat
+    matchKey
+    {	i64 charz , } ,
+    tag // a // b
+,@lengthOf( roots
+)	repeat char[ 42 ] // " ++ [128512]%N ++ runes_of_ascii " emoji
+Logon ,}")).
+Eval vm_compute in ("<<<M4416>>>" ++ check (runes_of_ascii "options {
+}
+
+root packet x {
+}
+
+packet tag {
+}
+
+packet Logon {
+    @rightPad()
+    zchar[00] u8x @calculatedFrom(""it's"") `it's`,// `tick` ""quote"" 'q'
+    zchar[4294967296] trueish @calculatedFrom(""it's"") `tab	here`,// @lengthOf(
+    @calculatedFrom(""\" ++ [233]%N ++ runes_of_ascii """)
+    @calculatedFrom(""" ++ [233]%N ++ runes_of_ascii "t" ++ [233]%N ++ runes_of_ascii """)
+    u32 options1 `" ++ [233]%N ++ runes_of_ascii "`,
+    @tag(7)
+    msg_type @lengthOf(stringy),
+    char[007] asx `two words`,//
+    @lengthOf(T)
+    @rightPad('\x00')
+    o chars,
+}
+
+root packet asx {
+}")).
+Eval vm_compute in ("<<<M462>>>" ++ check (runes_of_ascii "// trailing space 
+root // `tick` ""quote"" 'q'
+packet// `tick` ""quote"" 'q'
+roots{	match crc as	Pad
+{
+0: float
+[
+    00, ""\n"" ,
+//x
+// trailing space 
+0,
+""`tick`"", 65535 ,
+    // `tick` ""quote"" 'q'
+    """"
+, """ ++ [28040; 24687]%N ++ runes_of_ascii """, 4294967296
+]:
+    // @lengthOf(
+    Z9_ , },
+}
+    root packet chars {// c
+@rightPad ( ' ' )	falsey
+{ rootA , } ,zchar[
+    0123456789 ]
+// 50% %s
+// " ++ [27880; 37322]%N ++ runes_of_ascii "
+msg_type  @lengthOf( asx ) //	t
+,
+    u @calculatedFrom( ""a	b""
+)
+`a\` , }
+")).
+Eval vm_compute in ("<<<M3787>>>" ++ check (runes_of_ascii "// " ++ [128512]%N ++ runes_of_ascii " emoji
+packet asx {
+    // c
+    match o as packetx {
+        [
+            1, 65535, 007, """ ++ [233]%N ++ runes_of_ascii "t" ++ [233]%N ++ runes_of_ascii """, ""{,}"",
+            """ ++ [233]%N ++ runes_of_ascii "t" ++ [233]%N ++ runes_of_ascii """
+        ] : stringy,
+        ""// no comment"" : body,
+        ""\" ++ [233]%N ++ runes_of_ascii """ : body,
+        ""CRC32"" : int,
+        65535 : o,
+    },
+    @leftPad(' ')
+    @calculatedFrom(""it's"")
+    @calculatedFrom(""// no comment"")
+    repeat asx {
+        x,
+        char[42] msg_type,
+    },
+    @lengthOf(As)
+    T tag,
+}")).
+Eval vm_compute in ("<<<M1277>>>" ++ check (runes_of_ascii "root
+packet //x
+float {
+// " ++ [27880; 37322]%N ++ runes_of_ascii "
+// " ++ [27880; 37322]%N ++ runes_of_ascii "
+@calculatedFrom( ""\" ++ [233]%N ++ runes_of_ascii """
+    //x
+    )
+    uint8x {
+match metadata as len { [
+    // `tick` ""quote"" 'q'
+    """ ++ [28040; 24687]%N ++ runes_of_ascii """ ,0
+    ] : float
+    [
+65535 ,4294967296 ]: asx, } ,
+match A as
+f32a {
+    7
+    //x
+    : stringy  }
+    ,
+}
+, @tag(
+// `tick` ""quote"" 'q'
+/// triple
+255
+/// triple
+/// triple
+)chars leftPad // trailing space 
+,}
+packet  lengthOf { repeat lengthOf a1 `
+` ,  }")).
+Eval vm_compute in ("<<<M3947>>>" ++ check (runes_of_ascii "root
+	packet 
+//x
+
+  o
+{
+    @tag(
+65535 )	// c
+    	rootA	@calculatedFrom(
+	""a	b"")
+    `two words`
+,
+// a // b
+    } 
+// a // b
+    root 
+packet  
+      // trailing space 
+    Foo
+	{@lengthOf( 
+x_y_z  )@tag(	0123456789) //x
+@calculatedFrom(  """ ++ [128512]%N ++ runes_of_ascii """
+	)
+
+i8i8 ,f32 int	/// triple
+    , @calculatedFrom( ""it's""
+    )	i64
+	MetaDataX
+
+    @calculatedFrom( ""x y""
+) 
+``
+    , 
+} packet
+
+zchar
+{
+	}")).
+Eval vm_compute in ("<<<M1009>>>" ++ check (runes_of_ascii "MetaData//	t
+zchar	{ charz
+tag `say ""hi""`,char[
+10] string_ , // 50% %s
+u16
+u8x // " ++ [27880; 37322]%N ++ runes_of_ascii "
+`100% of %d`, zchar[
+    1
+// `tick` ""quote"" 'q'
+// a // b
+]	calculatedFrom`line1
+line2`, float32 string_ `" ++ [233]%N ++ runes_of_ascii "`,} packet
+    Pad { char[  007
+    /// triple
+    ] As , As @calculatedFrom( ""\" ++ [233]%N ++ runes_of_ascii """ ) `
+` , crc
+`100% of %d`,
+    // c
+    @tag( 4294967296 ) @calculatedFrom( """ ++ [128512]%N ++ runes_of_ascii """ )
+    f32 u8x,}
+")).
+Eval vm_compute in ("<<<M906>>>" ++ check (runes_of_ascii "root packet u
+    { match T as zchar {	""packet""
+:u8x ,
+[ ""{,}"" ] :// c
+x ,	1 :	i64_ , }, zchar[
+    00 ] Z9_
+`u8 x,`,match pack as float {
+""abc"" :  u128
+    , 65535 :
+matchKey""\" ++ [233]%N ++ runes_of_ascii """ : pack	""abc"":asx /// triple
+, [00,3 ]: u8x , 0 : // @lengthOf(
+Packet, } ,
+} options{ trueish =
+    '0'} MetaData tag
+    {uint64
+    charz , // @lengthOf(
+} // packet A { u8 x, }")).
+Eval vm_compute in ("<<<M1092>>>" ++ check (runes_of_ascii "root
+// a // b
+// " ++ [128512]%N ++ runes_of_ascii " emoji
+packet u { @calculatedFrom(
+    ""\" ++ [233]%N ++ runes_of_ascii """ )matchKey@calculatedFrom( ""a\""b"" ) , match
+    uint8x
+    as MetaDataX { [
+4294967296 ] :  int ,
+    [
+    10,""" ++ [128512]%N ++ runes_of_ascii """  ] : zchar 65535: A,""// no comment"" :MetaDataX ,} , match f32a as A // " ++ [27880; 37322]%N ++ runes_of_ascii "
+{
+[""{,}""
+    ] :
+// " ++ [128512]%N ++ runes_of_ascii " emoji
+/// triple
+chars
+""" ++ [28040; 24687]%N ++ runes_of_ascii """
+    :	Pad,} , char[]o`crlf
+line`// a // b
+, }
+")).
+Eval vm_compute in ("<<<M981>>>" ++ check (runes_of_ascii "
+packet uint8x
+{uint8x
+charz	`100% of %d`
+    // c
+    ,
+@rightPad ( ' '
+    ) repeat
+roots { zchar[ 42 ]_x
+, asx ,
+match i64_ as f32a{	""a\\"": falsey , 0 :
+options1 , ""1"" // @lengthOf(
+:
+x , 0 :
+    //
+    u128 , [ 00 , 4294967296/// triple
+]
+: len , [// c
+""`tick`"" ,
+    //x
+    ""packet"" ,	7
+    ,
+    3 , """ ++ [233]%N ++ runes_of_ascii "t" ++ [233]%N ++ runes_of_ascii """ ] :
+A , } , } , }
+")).
+Eval vm_compute in ("<<<M4032>>>" ++ check (runes_of_ascii "
+packet stringy
+	{
+
+@lengthOf(
+As	// trailing space 
+)
+
+    char[ 4294967296
+	] 
+  // trailing space 
+    // " ++ [128512]%N ++ runes_of_ascii " emoji
+
+o
+	, 
+}
+	root
+
+    packet f32a{	@rightPad 
+(  '0' )
+
+uint16 
+u8x@lengthOf(
+	Pad
+    )
+
+`a\`  ,  }
+MetaData
+
+Packet
+
+{
+i64_
+o	,uint64
+    u128 ,
+As
+    x
+,
+
+    u32
+
+    f32a  ,// 50% %s
+	  }
+
+")).
+Eval vm_compute in ("<<<M1365>>>" ++ check (runes_of_ascii "// @lengthOf(
+packet  Z9_
+{ @tag(
+7 // " ++ [128512]%N ++ runes_of_ascii " emoji
+) @tag(
+10 ) @lengthOf( u )
+    repeat
+metadata
+    {	repeat asx`100% of %d`  , repeat x_y_z, repeat u16  Pad `" ++ [233]%N ++ runes_of_ascii "` , match leftPad as
+    trueish {65535 :
+packetx/// triple
+, 4294967296	: trueish,[ ""a\""b""
+, ""\" ++ [233]%N ++ runes_of_ascii """ ]
+:
+chars
+,7 : a1[""" ++ [28040; 24687]%N ++ runes_of_ascii """ ]: falsey, } , }
+    , }")).
+Eval vm_compute in ("<<<M4281>>>" ++ check (runes_of_ascii "MetaData stringy {
+    zchar[7] x_y_z,
+    zchar[007] A,
+    string As `
+    `,
+}
+
+root packet tag {
+    @leftPad()
+    match _x as _x {
+        255 : chars,
+        10 : roots,
+        3 : Foo,
+        [""{,}"", ""packet""] : u,
+        //x
+        //
+        00 : x_y_z,
+        1 : i64_,
+    },
+}")).
+Eval vm_compute in ("<<<M1972>>>" ++ check (runes_of_ascii "packet	packetx { // trailing space 
+x_y_z
+{
+string
+charz ,
+string x// @lengthOf(
+`two words`
+    ,  u8x { // `tick` ""quote"" 'q'
+charz `100% of %d` // packet A { u8 x, }
+,}// " ++ [27880; 37322]%N ++ runes_of_ascii "
+,} , }
+    // a // b
+    packet metadata {  @leftPad @leftPad ( '0') repeat i32 options1 ,u64 uint8x , }
+")).
+Eval vm_compute in ("<<<M1864>>>" ++ check (runes_of_ascii "packet	packetx { // trailing space 
+@rightPad
+{
+string
+charz ,
+string x// @lengthOf(
+`two words`
+    ,  u8x { // `tick` ""quote"" 'q'
+charz `100% of %d` // packet A { u8 x, }
+,}// " ++ [27880; 37322]%N ++ runes_of_ascii "
+,} , }
+    // a // b
+    packet metadata {  @leftPad ( '0') repeat i32 options1 ,u64 uint8x , }
+")).
+Eval vm_compute in ("<<<M1947>>>" ++ check (runes_of_ascii "packet	packetx { // trailing space 
+x_y_z
+{
+string
+charz ,
+string x// @lengthOf(
+`two words`
+    ,  u8x { // `tick` ""quote"" 'q'
+charz `100% of %d` // packet A { u8 x, }
+,}// " ++ [27880; 37322]%N ++ runes_of_ascii "
+,} , , }
+    // a // b
+    packet metadata {  @leftPad ( '0') repeat i32 options1 ,u64 uint8x , }
+")).
+Eval vm_compute in ("<<<M1888>>>" ++ check (runes_of_ascii "packet	packetx { // trailing space 
+x_y_z
+{
+string
+charz ,
+x string// @lengthOf(
+`two words`
+    ,  u8x { // `tick` ""quote"" 'q'
+charz `100% of %d` // packet A { u8 x, }
+,}// " ++ [27880; 37322]%N ++ runes_of_ascii "
+,} , }
+    // a // b
+    packet metadata {  @leftPad ( '0') repeat i32 options1 ,u64 uint8x , }
+")).
+Eval vm_compute in ("<<<M4086>>>" ++ check (runes_of_ascii "packet T {
+    char[] metadata @calculatedFrom(""abc"") `line1
+        line2`,
+}
+
+packet body {
+    repeat len i64_,
+}
+
+packet float {
+    @leftPad('0')
+    // " ++ [27880; 37322]%N ++ runes_of_ascii "
+    i32 Header @calculatedFrom(""a	b""),
+    /// triple
+    // " ++ [27880; 37322]%N ++ runes_of_ascii "
+    string Logon @calculatedFrom(""a	b""),
+    rootA,
+}")).
+Eval vm_compute in ("<<<M1906>>>" ++ check (runes_of_ascii "packet	packetx { // trailing space 
+x_y_z
+{
+string
+charz ,
+string x// @lengthOf(
+`two words`
+    ,   { // `tick` ""quote"" 'q'
+charz `100% of %d` // packet A { u8 x, }
+,}// " ++ [27880; 37322]%N ++ runes_of_ascii "
+,} , }
+    // a // b
+    packet metadata {  @leftPad ( '0') repeat i32 options1 ,u64 uint8x , }
+")).
+Eval vm_compute in ("<<<M1991>>>" ++ check (runes_of_ascii "packet	packetx { // trailing space 
+x_y_z
+{
+string
+charz ,
+string x// @lengthOf(
+`two words`
+    ,  u8x { // `tick` ""quote"" 'q'
+charz `100% of %d` // packet A { u8 x, }
+,}// " ++ [27880; 37322]%N ++ runes_of_ascii "
+,} , }
+    // a // b
+    packet metadata {  @leftPad ( '0')  i32 options1 ,u64 uint8x , }
+")).
+Eval vm_compute in ("<<<M1896>>>" ++ check (runes_of_ascii "packet	packetx { // trailing space 
+x_y_z
+{
+string
+charz ,
+string x// @lengthOf(
+
+    ,  u8x { // `tick` ""quote"" 'q'
+charz `100% of %d` // packet A { u8 x, }
+,}// " ++ [27880; 37322]%N ++ runes_of_ascii "
+,} , }
+    // a // b
+    packet metadata {  @leftPad ( '0') repeat i32 options1 ,u64 uint8x , }
+")).
+Eval vm_compute in ("<<<M3508>>>" ++ check (runes_of_ascii "packet MDSnapshotZZ {
+    u8 a,
+}
+packet OrderACK {
+    u16 b,
+}
+packet HTTPServerInfo {
+    string s,
+}
+root packet FIXMsg {
+    u8 KType,
+    MDSnapshotZZ,
+    repeat OrderACK,
+    match KType as Body {
+        1 : HTTPServerInfo,
+        2 : OrderACK,
+    },
+}
+")).
+Eval vm_compute in ("<<<M2208>>>" ++ check (runes_of_ascii "packet// packet A { u8 x, }
+repeatCount	{// packet A { u8 x, }
+@leftPad ( '\x00'
+) repeat na" ++ [239]%N ++ runes_of_ascii "ve MetaDataX `crlf
+line`,
+    repeat
+    char[] MetaDataX
+    ,
+u64	uint8x@calculatedFrom(""a\""b""
+// c
+// packet A { u8 x, }
+) `tab	here`
+,//
+}MetaData pack
+    {
+    }
+")).
+Eval vm_compute in ("<<<M2092>>>" ++ check (runes_of_ascii "packet// packet A { u8 x, }
+repeatCount	{// packet A { u8 x, }
+@leftPad ( '\x00'
+) repeat f32 MetaDataX `crlf
+line`,
+    repeat
+    char[] MetaDataX
+    ,
+u64	uint8x@calculatedFrom(""a\""b""
+// c
+// packet A { u8 x, }
+) `tab	here`
+,//
+}MetaData pack
+    {
+    }
+")).
+Eval vm_compute in ("<<<M2177>>>" ++ check (runes_of_ascii "packet// packet A { u8 x, }
+repeatCount	{// packet A { u8 x, }
+@leftPad ( '\x00'
+) repeat u8x MetaDataX `crlf
+line`,
+    repeat
+    char[] MetaDataX
+    ,
+u64	uint8x@calculatedFrom(""a\""b""
+// c
+// packet A { u8 x, }
+) `tab	here`
+,//
+}MetaData i32
+    {
+    }
+")).
+Eval vm_compute in ("<<<M1554>>>" ++ check (runes_of_ascii "packet calculatedFrom
+{ @calculatedFrom( ""a\\"" ) zchar[ 4294967296 ]
+calculatedFrom@lengthOf( pack )	`100% of %d` ,char[]body@calculatedFrom( ""// no comment"" )  ,
+@tag( 007) //x
+int8
+leftPad`it's` , repeat repeat pack
+    { repeat char[ 3] body
+,},
+}")).
+Eval vm_compute in ("<<<M2064>>>" ++ check (runes_of_ascii "packet// packet A { u8 x, }
+repeatCount	{// packet A { u8 x, }
+ ( '\x00'
+) repeat u8x MetaDataX `crlf
+line`,
+    repeat
+    char[] MetaDataX
+    ,
+u64	uint8x@calculatedFrom(""a\""b""
+// c
+// packet A { u8 x, }
+) `tab	here`
+,//
+}MetaData pack
+    {
+    }
+")).
+Eval vm_compute in ("<<<M1549>>>" ++ check (runes_of_ascii "packet calculatedFrom
+{ @calculatedFrom( ""a\\"" ) zchar[ 4294967296 ]
+calculatedFrom@lengthOf( pack )	`100% of %d` ,char[]body@calculatedFrom( ""// no comment"" )  ,
+@tag( 007) //x
+int8
+leftPad`it's` , , repeat pack
+    { repeat char[ 3] body
+,},
+}")).
+Eval vm_compute in ("<<<M1628>>>" ++ check ([127]%N ++ runes_of_ascii "packet calculatedFrom
+{ @calculatedFrom( ""a\\"" ) zchar[ 4294967296 ]
+calculatedFrom@lengthOf( pack )	`100% of %d` ,char[]body@calculatedFrom( ""// no comment"" )  ,
+@tag( 007) //x
+int8
+leftPad`it's` , repeat pack
+    { repeat char[ 3] body
+,},
+}")).
+Eval vm_compute in ("<<<M1515>>>" ++ check (runes_of_ascii "packet calculatedFrom
+{ @calculatedFrom( ""a\\"" ) zchar[ 4294967296 ]
+calculatedFrom@lengthOf( pack )	`100% of %d` ,char[]body@calculatedFrom( ""// no comment"" )  @tag(
+, 007) //x
+int8
+leftPad`it's` , repeat pack
+    { repeat char[ 3] body
+,},
+}")).
+Eval vm_compute in ("<<<M1563>>>" ++ check (runes_of_ascii "packet calculatedFrom
+{ @calculatedFrom( ""a\\"" ) zchar[ 4294967296 ]
+calculatedFrom@lengthOf( pack )	`100% of %d` ,char[]body@calculatedFrom( ""// no comment"" )  ,
+@tag( 007) //x
+int8
+leftPad`it's` , repeat pack
+     repeat char[ 3] body
+,},
+}")).
+Eval vm_compute in ("<<<M1431>>>" ++ check (runes_of_ascii "packet calculatedFrom
+{ repeatCount ""a\\"" ) zchar[ 4294967296 ]
+calculatedFrom@lengthOf( pack )	`100% of %d` ,char[]body@calculatedFrom( ""// no comment"" )  ,
+@tag( 007) //x
+int8
+leftPad`it's` , repeat pack
+    { repeat char[ 3] body
+,},
+}")).
+Eval vm_compute in ("<<<M1463>>>" ++ check (runes_of_ascii "packet calculatedFrom
+{ @calculatedFrom( ""a\\"" ) zchar[ 4294967296 ]
+calculatedFrom pack )	`100% of %d` ,char[]body@calculatedFrom( ""// no comment"" )  ,
+@tag( 007) //x
+int8
+leftPad`it's` , repeat pack
+    { repeat char[ 3] body
+,},
+}")).
+Eval vm_compute in ("<<<M3361>>>" ++ check (runes_of_ascii "// top
+MetaData // c0
+_x
+    // c1
+{
+    // c2
+f64 charz // c4
+`tab	here` // c5a
+  // c5b
+,
+    // c6
+}
+    // c7
+options // c8a
+  // c8b
+{ BodyLength // c10a
+  // c10b
+= """ ++ [233]%N ++ runes_of_ascii "t" ++ [233]%N ++ runes_of_ascii """ // c12a
+  // c12b
+;
+    // c13
+} // c14a
+  // c14b
+")).
+Eval vm_compute in ("<<<M4248>>>" ++ check (runes_of_ascii "packet repeatCount {
+    // packet A { u8 x, }
+    @leftPad('\x00')
+    repeat u8x MetaDataX `crlf
+        line`,
+    repeat char[] MetaDataX,
+    u64 uint8x @calculatedFrom(""a\""b"") `tab	here`,//
+}
+
+MetaData pack {
+}")).
+Eval vm_compute in ("<<<M959>>>" ++ check (runes_of_ascii "  root packet
+// `tick` ""quote"" 'q'
+// trailing space 
+i64_ { match leftPad as roots { 0// " ++ [27880; 37322]%N ++ runes_of_ascii "
+: Z9_
+,
+} , } packet MetaDataX { } root
+packet x {
+char[ 00
+// " ++ [27880; 37322]%N ++ runes_of_ascii "
+//x
+]int @lengthOf(roots	)
+``// " ++ [128512]%N ++ runes_of_ascii " emoji
+,}
+")).
+Eval vm_compute in ("<<<M1241>>>" ++ check (runes_of_ascii "root packet msg_type
+    {packetx T ,
+} options
+    {	matchKey
+= 1 ; } packet
+    u { repeat
+// packet A { u8 x, }
+/// triple
+char[ 7 ]
+    i8i8`it's` , }  options
+    {
+BodyLength
+    =//	t
+""" ++ [128512]%N ++ runes_of_ascii """
+}
+")).
+Eval vm_compute in ("<<<M3627>>>" ++ check (runes_of_ascii "
+/// triple
+options 
+        // " ++ [27880; 37322]%N ++ runes_of_ascii "
+    // c
+
+	{ u8x
+
+= u64// `tick` ""quote"" 'q'
+	lengthOf	=""a	b""lengthOf
+
+    =	' ' 
+;
+    T  =
+    '\x00'  // @lengthOf(
+; 	 // @lengthOf(
+	  } //	t
+")).
+Eval vm_compute in ("<<<M504>>>" ++ check (runes_of_ascii "packet
+Pad  { @lengthOf( leftPad
+) i32 msg_type
+, /// triple
+@tag(
+    //
+    4294967296 ) uint8x
+@lengthOf(
+// packet A { u8 x, }
+//	t
+string_ )`// not a comment` ,float64 leftPad , }")).
+Eval vm_compute in ("<<<M1283>>>" ++ check (runes_of_ascii "
+MetaData lengthOf{ metadata
+roots `crlf
+line`
+, } packet // `tick` ""quote"" 'q'
+f32a{	} root
+packet MetaDataX	{char uint8x `tab	here`
+    , } // 50% %s
+root packet a1 {}
+
+")).
+Eval vm_compute in ("<<<M1327>>>" ++ check (runes_of_ascii "
+root packet trueish{}
+root
+packet T{repeat
+asx float, }
+MetaData repeatCount
+{ /// triple
+Packet falsey ,
+} MetaData Z9_ {
+zchar[
+7]	Foo
+// 50% %s
+//
+, }
+/// triple
+")).
+Eval vm_compute in ("<<<M2428>>>" ++ check (runes_of_ascii "
+packet MetaDataX
+{
+    @leftPad
+( // a // b
+'0'
+) i8 u @lengthOf(
+MetaDataX
+    ) `say ""hi""` ,	} MetaData BodyLength {
+    asx
+x_y_z `" ++ [233]%N ++ runes_of_ascii "`
+, uint64 uint64 u128 , }
+")).
+Eval vm_compute in ("<<<M4548>>>" ++ check (runes_of_ascii "// top
+  MetaData 
+	// c0
+	zchar 
+
+// c1
+	{ 
+	// c2
+	zchar[ 
+        // c3
+	3 
+
+    // c4
+		]
+	// c5
+    	Pad 
+
+// c6
+	  , 
+      // c7
+  }
+
+    // c8
+ 
+")).
+Eval vm_compute in ("<<<M2391>>>" ++ check (runes_of_ascii "
+packet MetaDataX
+{
+    @leftPad
+( // a // b
+'0'
+) i8 u @lengthOf(
+MetaDataX
+    ) `say ""hi""` ,	} MetaData BodyLength { {
+    asx
+x_y_z `" ++ [233]%N ++ runes_of_ascii "`
+, uint64 u128 , }
+")).
+Eval vm_compute in ("<<<M683>>>" ++ check (runes_of_ascii "MetaData Logon { int Z9_, } packet zchar {
+    @calculatedFrom( ""\n"" )
+zchar[
+4294967296 ]  msg_type ,	@tag(
+65535 )stringy@lengthOf(A
+) `say ""hi""`
+    , }
+")).
+Eval vm_compute in ("<<<M1658>>>" ++ check (runes_of_ascii "options { } packet Packet{ {char[] i64_ ,
+@tag(
+    255) match
+crc as i8i8{""{,}"" : trueish """" : Pad , ""a\\"" :
+Foo ,
+    1 :packetx
+, """ ++ [128512]%N ++ runes_of_ascii """ : trueish , } , }")).
+Eval vm_compute in ("<<<M2440>>>" ++ check (runes_of_ascii "
+packet MetaDataX
+{
+    @leftPad
+( // a // b
+'0'
+) i8 u @lengthOf(
+MetaDataX
+    ) `say ""hi""` ,	 MetaData BodyLength {
+    asx
+x_y_z `" ++ [233]%N ++ runes_of_ascii "`
+, uint64 u128 , }
+")).
+Eval vm_compute in ("<<<M1641>>>" ++ check (runes_of_ascii "options = } packet Packet{char[] i64_ ,
+@tag(
+    255) match
+crc as i8i8{""{,}"" : trueish """" : Pad , ""a\\"" :
+Foo ,
+    1 :packetx
+, """ ++ [128512]%N ++ runes_of_ascii """ : trueish , } , }")).
+Eval vm_compute in ("<<<M1794>>>" ++ check (runes_of_ascii "options { } packet Packet{char[] i64_ ,
+@tag(
+    255) match
+crc as i8i8{""{,}"" : trueish """" : Pad , ""a\\"" :
+Foo ,
+    1 :packetx
+, : """ ++ [128512]%N ++ runes_of_ascii """ trueish , } , }")).
+Eval vm_compute in ("<<<M1807>>>" ++ check (runes_of_ascii "options { } packet Packet{char[] i64_ ,
+@tag(
+    255) match
+crc as i8i8{""{,}"" : trueish """" : Pad , ""a\\"" :
+Foo ,
+    1 :packetx
+, """ ++ [128512]%N ++ runes_of_ascii """ : trueish  } , }")).
+Eval vm_compute in ("<<<M192>>>" ++ check (runes_of_ascii "options {a1
+= // " ++ [27880; 37322]%N ++ runes_of_ascii "
+1 ;
+tag =
+    string
+    ;}
+packet// " ++ [27880; 37322]%N ++ runes_of_ascii "
+u{float32 leftPad `// not a comment` , } packet int { }
+    options {
+    Logon=""{,}"" ; }
+")).
+Eval vm_compute in ("<<<M1752>>>" ++ check (runes_of_ascii "options { } packet Packet{char[] i64_ ,
+@tag(
+    255) match
+crc as i8i8{""{,}"" : trueish """" : Pad ,  :
+Foo ,
+    1 :packetx
+, """ ++ [128512]%N ++ runes_of_ascii """ : trueish , } , }")).
+Eval vm_compute in ("<<<M3795>>>" ++ check (runes_of_ascii "packet chars {
+    repeat char[0123456789] repeatCount,
+    body Foo,
+    @calculatedFrom(""\n"")
+    char[] int @lengthOf(len),
+    // @lengthOf(
+}")).
+Eval vm_compute in ("<<<M738>>>" ++ check (runes_of_ascii "packet body {  match body as	x {
+42:msg_type 255 : options1 65535 : u
+    //
+    ,
+//	t
+// " ++ [27880; 37322]%N ++ runes_of_ascii "
+""" ++ [233]%N ++ runes_of_ascii "t" ++ [233]%N ++ runes_of_ascii """ : a1""packet"": lengthOf
+,  } // " ++ [27880; 37322]%N ++ runes_of_ascii "
+, }
+")).
+Eval vm_compute in ("<<<M170>>>" ++ check (runes_of_ascii "  packet falsey {
+repeat leftPad {
+repeat i64_// " ++ [128512]%N ++ runes_of_ascii " emoji
+pack `// not a comment`
+    // packet A { u8 x, }
+    ,}
+// " ++ [128512]%N ++ runes_of_ascii " emoji
+// " ++ [27880; 37322]%N ++ runes_of_ascii "
+,
+}
+")).
+Eval vm_compute in ("<<<M3464>>>" ++ check (runes_of_ascii "options {
+    LittleEndian = true;
+}
+packet B {
+    u8 a,
+    string s,
+}
+root packet P {
+    u16 L @lengthOf(B),
+    B,
+    u8 t,
+}
+")).
+Eval vm_compute in ("<<<M3674>>>" ++ check (runes_of_ascii "MetaData As {
+    roots tag,
+    u32 a1 ``,
+    crc packetx,
+    BodyLength A `crlf
+        line`,
+}
+
+options {
+    a1 = true
+}")).
+Eval vm_compute in ("<<<M3270>>>" ++ check (runes_of_ascii "MetaData metadata { } MetaData // c
+rootA { i8 i64_ , roots options1 `a\` , lengthOf Header , Z9_ Foo , int16 BodyLength , }")).
+Eval vm_compute in ("<<<M3302>>>" ++ check (runes_of_ascii "MetaData metadata { } MetaData rootA { i8 i64_ , roots options1 `a\` , lengthOf Header , Z9_ Foo , int16 // c
+BodyLength , }")).
+Eval vm_compute in ("<<<M980>>>" ++ check (runes_of_ascii "options {
+    Packet
+=""\n"" i64_
+// trailing space 
+// packet A { u8 x, }
+= i32 ; Z9_ =
+char[ 00 ] metadata
+= uint64 }
+")).
+Eval vm_compute in ("<<<M3597>>>" ++ check (runes_of_ascii "MetaData float {
+    uint8 BodyLength,
+}
+
+MetaData charz {
+    float32 trueish `a\`,
+    i16 metadata `say ""hi""`,
+}")).
+Eval vm_compute in ("<<<M3984>>>" ++ check (runes_of_ascii "MetaData charz {
+    // " ++ [27880; 37322]%N ++ runes_of_ascii "
+    char[65535] i64_,
+    tag msg_type `say ""hi""`,
+    // trailing space 
+    //	t
+}")).
+Eval vm_compute in ("<<<M3341>>>" ++ check (runes_of_ascii "MetaData float { uint8 BodyLength , } MetaData charz { float32 trueish
+// c
+`a\` , i16 metadata `say ""hi""` , }")).
+Eval vm_compute in ("<<<M354>>>" ++ check (runes_of_ascii "MetaData Pad{
+// @lengthOf(
+//
+} //x
+MetaData
+T { repeatCount a1 `say ""hi""`	,// trailing space 
+} // 50% %s")).
+Eval vm_compute in ("<<<M3004>>>" ++ check (runes_of_ascii "packet A {
+  match k as n {
+    [""a"", 22, ""c c"", 4, ""e"", 66, ""g"", 8, ""i"", 10, ""k""] : B,
+    2 : C
+  },
+}")).
+Eval vm_compute in ("<<<M520>>>" ++ check (runes_of_ascii "root packet f32a  {}MetaData o {
+u64 u , /// triple
+o uint8x
+, }
+packet A{ // `tick` ""quote"" 'q'
+}
+")).
+Eval vm_compute in ("<<<M2439>>>" ++ check (runes_of_ascii "
+packet MetaDataX
+{
+    @leftPad
+( // a // b
+'0'
+) i8 u @lengthOf(
+MetaDataX
+    ) `say ""hi""` ,	}")).
+Eval vm_compute in ("<<<M3461>>>" ++ check (runes_of_ascii "packet B {
+    u8 a,
+    string s,
+}
+root packet P {
+    u16 L @lengthOf(B),
+    B,
+    u8 t,
+}
+")).
+Eval vm_compute in ("<<<M635>>>" ++ check (runes_of_ascii "packet  msg_type {
+    } MetaData
+    stringy { char[]packetx , }root packet
+repeatCount{ }
+")).
+Eval vm_compute in ("<<<M911>>>" ++ check (runes_of_ascii "options	{
+len =
+char[ 00
+// @lengthOf(
+//
+]
+    ; calculatedFrom=
+    ""x y"";
+u8x = """ ++ [28040; 24687]%N ++ runes_of_ascii """ }")).
+Eval vm_compute in ("<<<M2277>>>" ++ check (runes_of_ascii "MetaData _x {string x `// not a comment` , string
+i?64_ // trailing space 
+`a\` ,
+    }
+")).
+Eval vm_compute in ("<<<M2251>>>" ++ check (runes_of_ascii "MetaData _x {string x `// not a comment` , string
+`a\` // trailing space 
+i64_ ,
+    }
+")).
+Eval vm_compute in ("<<<M3747>>>" ++ check (runes_of_ascii "
+packet
+
+A
+{
+Inner {
+
+match	k
+as n {	[
+1 ,  22 ,
+
+007,
+    4,
+	5]:
+B
+, }
+,
+	}, }
+")).
+Eval vm_compute in ("<<<M3496>>>" ++ check (runes_of_ascii "packet order_item {
+    u8 a,
+}
+root packet new_order {
+    order_item,
+    u8 x,
+}
+")).
+Eval vm_compute in ("<<<M1142>>>" ++ check (runes_of_ascii "packet As { calculatedFrom @lengthOf( MetaDataX )
+`100% of %d`
+    // " ++ [27880; 37322]%N ++ runes_of_ascii "
+    , }
+")).
+Eval vm_compute in ("<<<M239>>>" ++ check (runes_of_ascii "packet rootA
+{} packet
+    zchar {
+float64
+a1 @calculatedFrom( ""{,}"" )
+    , }")).
+Eval vm_compute in ("<<<M861>>>" ++ check (runes_of_ascii "root packet i8i8 {
+    }// packet A { u8 x, }
+packet
+    f32a { BodyLength,}
+")).
+Eval vm_compute in ("<<<M3374>>>" ++ check (runes_of_ascii "MetaData _x { f64 charz `tab	here` // c
+, } options { BodyLength = """ ++ [233]%N ++ runes_of_ascii "t" ++ [233]%N ++ runes_of_ascii """ ; }")).
+Eval vm_compute in ("<<<M536>>>" ++ check (runes_of_ascii "options {
+    // @lengthOf(
+    lengthOf // " ++ [128512]%N ++ runes_of_ascii " emoji
+=
+    7 // 50% %s
+; }")).
+Eval vm_compute in ("<<<M641>>>" ++ check (runes_of_ascii "options{u= ""x y""leftPad= ""// no comment"" ;
+u8x = """ ++ [128512]%N ++ runes_of_ascii """ ; i64_
+    = 007}")).
+Eval vm_compute in ("<<<M3426>>>" ++ check (runes_of_ascii "packet o { @tag( 4294967296 ) options1 @lengthOf( u8x ) `" ++ [233]%N ++ runes_of_ascii "` , } // c
+")).
+Eval vm_compute in ("<<<M3420>>>" ++ check (runes_of_ascii "packet o { @tag( 4294967296 ) options1 @lengthOf( u8x ) // c
+`" ++ [233]%N ++ runes_of_ascii "` , }")).
+Eval vm_compute in ("<<<M2682>>>" ++ check (runes_of_ascii "options { a = char[3]; b = zchar[0] c = char[] d = string e = u8 }")).
+Eval vm_compute in ("<<<M4006>>>" ++ check (runes_of_ascii "/// triple
+  	options{charz 
+=false	;
+}	packet  Logon
+    {  }
+")).
+Eval vm_compute in ("<<<M2268>>>" ++ check (runes_of_ascii "MetaData _x {string x `// not a comment` , string
+i64_ // tra")).
+Eval vm_compute in ("<<<M991>>>" ++ check (runes_of_ascii "
+MetaData	crc {
+    /// triple
+    MetaDataX i64_ //
+,	}
+")).
+Eval vm_compute in ("<<<M2762>>>" ++ check (runes_of_ascii "true ] , root int64 ] u16 lengthOf u8 uint64 ' ' } false")).
+Eval vm_compute in ("<<<M4073>>>" ++ check (runes_of_ascii "  root
+	packet
+
+    A
+    { }  root
+    packet
+B{	} ")).
+Eval vm_compute in ("<<<M1394>>>" ++ check (runes_of_ascii "  options{msg_type // trailing space 
+= '\x00' ;	}
+")).
+Eval vm_compute in ("<<<M2253>>>" ++ check (runes_of_ascii "MetaData _x {string x `// not a comment` , string")).
+Eval vm_compute in ("<<<M3201>>>" ++ check (runes_of_ascii "packet A {} packet B {} MetaData M {} options {}")).
+Eval vm_compute in ("<<<M1330>>>" ++ check (runes_of_ascii "root
+packet packetx {
+    As
+u128 , }
+// " ++ [27880; 37322]%N ++ runes_of_ascii "
+")).
+Eval vm_compute in ("<<<M903>>>" ++ check (runes_of_ascii "packet // packet A { u8 x, }
+u128 {
+    }
+")).
+Eval vm_compute in ("<<<M2790>>>" ++ check (runes_of_ascii ": true string false false root = zchar[ )")).
+Eval vm_compute in ("<<<M3242>>>" ++ check (runes_of_ascii "MetaData zchar { zchar[ 3
+// c
+] Pad , }")).
+Eval vm_compute in ("<<<M4435>>>" ++ check (runes_of_ascii "MetaData chars {
+    Pad BodyLength,
+}")).
+Eval vm_compute in ("<<<M2801>>>" ++ check (runes_of_ascii "='DGVS%neQCiE9%uEYt6u*Vq85g!LWUFu''^")).
+Eval vm_compute in ("<<<M104>>>" ++ check (runes_of_ascii "MetaData a1	{ // trailing space 
+}")).
+Eval vm_compute in ("<<<M2840>>>" ++ check ([65533; 15; 1849; 1966; 65533]%N ++ runes_of_ascii "C" ++ [65533; 2009; 65533; 18; 65533; 65533]%N ++ runes_of_ascii "z" ++ [65533; 65533; 30]%N ++ runes_of_ascii "J" ++ [168]%N ++ runes_of_ascii ">" ++ [65533]%N ++ runes_of_ascii "|q" ++ [4; 65533; 65533; 17]%N ++ runes_of_ascii "I" ++ [65533; 28]%N ++ runes_of_ascii " " ++ [65533; 65533; 30]%N)).
+Eval vm_compute in ("<<<M2811>>>" ++ check (runes_of_ascii ": as } root int16 """" match as [")).
+Eval vm_compute in ("<<<M404>>>" ++ check (runes_of_ascii "packet	int
+{ uint16
+Pad ,
+}")).
+Eval vm_compute in ("<<<M1227>>>" ++ check (runes_of_ascii "MetaData
+crc { string o , }")).
+Eval vm_compute in ("<<<M2831>>>" ++ check (runes_of_ascii "= int8 [ int64 i64 u32 i16")).
+Eval vm_compute in ("<<<M1432>>>" ++ check (runes_of_ascii "packet calculatedFrom
+{")).
+Eval vm_compute in ("<<<M2583>>>" ++ check (runes_of_ascii "packet A { repeat u8 }")).
+Eval vm_compute in ("<<<M2685>>>" ++ check (runes_of_ascii "options { a = `d`; }")).
+Eval vm_compute in ("<<<M3189>>>" ++ check (runes_of_ascii "packet A {
+}
+// c x")).
+Eval vm_compute in ("<<<M3149>>>" ++ check (runes_of_ascii "packet A {
+}
+// c" ++ [8239]%N)).
+Eval vm_compute in ("<<<M2652>>>" ++ check (runes_of_ascii "packet A { } root")).
+Eval vm_compute in ("<<<M1006>>>" ++ check (runes_of_ascii "//	t
+options { }")).
+Eval vm_compute in ("<<<M951>>>" ++ check (runes_of_ascii "packet T { }
+")).
+Eval vm_compute in ("<<<M2572>>>" ++ check ([65279]%N ++ runes_of_ascii "packet A {}")).
+Eval vm_compute in ("<<<M2800>>>" ++ check ([65533]%N ++ runes_of_ascii "0#" ++ [65533]%N ++ runes_of_ascii "j" ++ [65533; 567]%N ++ runes_of_ascii "Nk" ++ [65533]%N)).
+Eval vm_compute in ("<<<M2437>>>" ++ check (runes_of_ascii "
+packet")).
+Eval vm_compute in ("<<<M2488>>>" ++ check (runes_of_ascii "Packet")).
+Eval vm_compute in ("<<<M2748>>>" ++ check ([29; 20; 65533; 65533; 65533]%N)).
+Eval vm_compute in ("<<<M2536>>>" ++ check (runes_of_ascii """//""")).
+Eval vm_compute in ("<<<M2544>>>" ++ check (runes_of_ascii "`""`")).
+Eval vm_compute in ("<<<M2555>>>" ++ check (runes_of_ascii "__")).
+Eval vm_compute in ("<<<M2734>>>" ++ check (runes_of_ascii ")")).
